@@ -1,22 +1,32 @@
-"""C20 - Compiled and dataclass payloads behave like their plain definition (generator analysed as a program transformer)."""
+"""C20 - Compiled and dataclass payloads behave like their plain definition (generator, interpreter and dataclass front end
+rendered symbolically for abstract payload definitions; nothing from /repo is executed)."""
 from __future__ import annotations
 
 import ast
+import re
+import string
+from collections import ChainMap
+from dataclasses import dataclass, field
 
 from ..core import Ctx
-from ..match import arg, call_name, calls, local_defs, resolve, single_def
-from ..model import AnalysisError, FuncInfo, ancestors, chain, const_value, enclosing_stmt, norm, parent, strip_cast, walk_no_nested
+from ..match import calls
+from ..model import AnalysisError, ClassInfo, FuncInfo, Module, chain, const_value, norm, walk_no_nested
 
 LEVEL = "other"
 EXPLANATION = (
     "The code generator (_compile_init, _compile_from_unpack_list, _compile_to_pack_list, vp_compile), the interpreter "
-    "(VariablePayload.__init__/to_pack_list/from_unpack_list) and the dataclass front end (type_map, convert_to_payload) "
-    "are analysed as source: the f-string templates must have the shape that reproduces the interpreter for every "
-    "definition (names in order; defaults exactly under `name in defaults` and rendered with repr; one name per format, "
-    "eight for 'bits', with a running index; fix_pack_/fix_unpack_ hooks exactly under hasattr on the source class; same "
-    "format derivation str/list/else), vp_compile feeds the builders from the same class and installs exactly the three "
-    "functions, type_map only returns registered formats. Nothing from /repo is executed; equality of bytes for concrete "
-    "instances is not decided."
+    "(VariablePayload.__init__/to_pack_list/from_unpack_list/_fix_pack/_to_packlist_fmt) and the dataclass front end (type_map, "
+    "convert_to_payload) are read as source and rendered SYMBOLICALLY by an abstract interpreter of this module (own evaluator over "
+    "the syntax trees; field names, formats, attribute values, wire values and default values are opaque symbols, so a verdict "
+    "holds for every choice of them): for a family of abstract definitions (format lists over 'bits' / string format / nested "
+    "payload / list of nested payload, fix_pack_/fix_unpack_ hooks present or absent per field, constructor defaults, positional / "
+    "keyword / omitted constructor arguments) the generated source text is parsed (never run) and evaluated by the same abstract "
+    "interpreter, and the resulting pack list / constructor call / attribute state must equal the specification, and so must the "
+    "interpreted VariablePayload methods. vp_compile is evaluated end to end (two definitions with an equal layout and different "
+    "hooks share one world, constructor defaults come from positional and keyword-only parameters); convert_to_payload is evaluated "
+    "for fresh, re-converted and derived dataclasses with ClassVar pseudo-fields; type_map is evaluated on every annotation kind and "
+    "only returns registered formats. Code outside the evaluated fragment is exit 2 (undecided), never a verdict. The family of "
+    "definitions is finite (up to 5 formats / 19 names); equality of bytes for concrete instances is not decided."
 )
 
 LP = "ipv8/messaging/lazy_payload.py"
@@ -24,213 +34,2457 @@ PD = "ipv8/messaging/payload_dataclass.py"
 SER = "ipv8/messaging/serialization.py"
 
 
-def _fstring_parts(js: ast.JoinedStr):
-    out = []
-    for v in js.values:
-        if isinstance(v, ast.Constant):
-            out.append(("text", v.value))
+# ===================================================================================================== symbolic values
+class Und(Exception):
+    """The abstract interpreter cannot evaluate this construct: the rule is undecided (exit 2), never a verdict."""
+
+
+class PyExc(Exception):
+    """The analysed code raises."""
+
+    def __init__(self, kind: str, detail: str = "") -> None:
+        super().__init__(kind, detail)
+        self.kind = kind
+        self.detail = detail
+
+    def __str__(self) -> str:
+        return f"{self.kind}({self.detail})" if self.detail else self.kind
+
+
+@dataclass(frozen=True)
+class Sym:
+    """Opaque atom. kind: name | fmt | field | wire | default | arg | hook | clsname | modname; typ: str | callable | any."""
+    kind: str
+    key: object = None
+    typ: str = "any"
+
+    def __repr__(self) -> str:
+        if self.kind == "name":
+            return f"n{self.key}"
+        if self.kind == "hook":
+            return f"<{self.key[0]}n{self.key[1]}@{self.key[2]}>"
+        return f"<{self.kind}{'' if self.key is None else self.key}>"
+
+
+@dataclass(frozen=True)
+class Conv:
+    """Part of a symbolic string: repr() ('r') or str() ('s') of a value that is not a string."""
+    how: str
+    value: object
+
+    def __repr__(self) -> str:
+        return f"{'repr' if self.how == 'r' else 'str'}({self.value!r})"
+
+
+@dataclass(frozen=True)
+class SStr:
+    parts: tuple
+
+    def __repr__(self) -> str:
+        return "".join(p if isinstance(p, str) else "{" + repr(p) + "}" for p in self.parts)
+
+
+@dataclass(frozen=True)
+class App:
+    """Opaque result of calling an opaque callable / combining opaque values."""
+    fn: object
+    args: tuple
+    kw: tuple = ()
+
+    def __repr__(self) -> str:
+        return f"{self.fn!r}({', '.join([repr(a) for a in self.args] + [f'{k!r}={v!r}' for k, v in self.kw])})"
+
+
+@dataclass(frozen=True)
+class Ext:
+    """Something of a module outside /repo (inspect.signature, typing.TypeVar, ...), modelled in Interp.call_ext."""
+    name: str
+
+
+@dataclass(frozen=True)
+class Builtin:
+    name: str
+
+
+@dataclass(frozen=True)
+class ObjInit:
+    """object.__init__ reached through the named class."""
+    owner: str
+
+
+@dataclass(frozen=True)
+class HookDef:
+    """Class attribute fix_pack_<name> / fix_unpack_<name> of an abstract definition."""
+    prefix: str
+    index: int
+
+
+@dataclass(frozen=True)
+class Constructed:
+    cls: object
+    args: tuple
+    kw: tuple = ()
+
+    def __repr__(self) -> str:
+        return f"{self.cls!r}({', '.join([repr(a) for a in self.args] + [f'{k!r}={v!r}' for k, v in self.kw])})"
+
+
+class RepoCls:
+    def __init__(self, ci: ClassInfo) -> None:
+        self.ci = ci
+
+    def __eq__(self, other) -> bool:
+        return isinstance(other, RepoCls) and other.ci is self.ci
+
+    def __hash__(self) -> int:
+        return id(self.ci.node)
+
+    def __repr__(self) -> str:
+        return self.ci.name
+
+
+class ClsObj:
+    """An abstract class (payload definition, nested payload class, dataclass)."""
+
+    def __init__(self, name: str, bases: list, attrs: dict | None = None, meta: dict | None = None) -> None:
+        self.name = name
+        self.bases = bases
+        self.attrs = attrs if attrs is not None else {}
+        self.meta = meta or {}
+
+    def __repr__(self) -> str:
+        return self.name
+
+
+class Obj:
+    def __init__(self, cls, attrs: dict | None = None, label: str = "obj") -> None:
+        self.cls = cls
+        self.attrs = attrs if attrs is not None else {}
+        self.label = label
+
+    def __repr__(self) -> str:
+        return f"<{self.label}>"
+
+
+class Rec:
+    """Plain record with attributes (signature, parameter, code object, dataclass field, typing alias ...)."""
+
+    def __init__(_self, _kind: str, /, **fields) -> None:  # noqa: N805
+        _self.kind = _kind
+        _self.fields = fields
+
+    def __repr__(self) -> str:
+        return f"<{self.kind} {self.fields.get('name', self.fields.get('__name__', ''))!r}>"
+
+
+class Func:
+    def __init__(self, node, module: Module, fi: FuncInfo | None = None, closure=None, generated: bool = False) -> None:
+        self.node = node
+        self.module = module
+        self.fi = fi
+        self.closure = closure
+        self.generated = generated
+
+    @property
+    def name(self) -> str:
+        return getattr(self.node, "name", "<lambda>")
+
+    def __repr__(self) -> str:
+        return f"<function {self.name}>"
+
+
+@dataclass(frozen=True)
+class Bound:
+    func: object
+    self: object
+
+
+@dataclass(frozen=True)
+class PyMethod:
+    obj: object
+    name: str
+
+    def __hash__(self) -> int:
+        return hash((id(self.obj), self.name))
+
+
+@dataclass(frozen=True)
+class ModRef:
+    module: object
+
+    def __hash__(self) -> int:
+        return id(self.module)
+
+
+@dataclass
+class ExcVal:
+    kind: str
+    args: tuple = ()
+
+
+class IterObj:
+    """iter(x): position in a (live) list."""
+
+    def __init__(self, seq: list) -> None:
+        self.seq = seq
+        self.pos = 0
+
+    def __repr__(self) -> str:
+        return f"<iterator at {self.pos} of {self.seq!r}>"
+
+
+class _Return(Exception):
+    def __init__(self, value) -> None:
+        self.value = value
+
+
+class _Break(Exception):
+    pass
+
+
+class _Continue(Exception):
+    pass
+
+
+MISSING = object()
+_PH = re.compile(r"Zq(\d+)qZ")
+_EXC_NAMES = {"Exception", "BaseException", "KeyError", "IndexError", "LookupError", "TypeError", "ValueError", "AttributeError",
+              "NotImplementedError", "RuntimeError", "NameError", "AssertionError", "StopIteration", "OSError", "SyntaxError",
+              "ArithmeticError", "ZeroDivisionError"}
+_EXC_PARENTS = {"KeyError": "LookupError", "IndexError": "LookupError", "NotImplementedError": "RuntimeError",
+                "ZeroDivisionError": "ArithmeticError"}
+_TYPE_NAMES = {"str", "int", "float", "bool", "bytes", "list", "tuple", "set", "frozenset", "dict", "type", "object", "super"}
+_FUNC_NAMES = {"len", "range", "enumerate", "zip", "reversed", "sorted", "repr", "isinstance", "issubclass", "hasattr", "getattr", "setattr",
+               "callable", "compile", "exec", "globals", "locals", "vars", "any", "all", "sum", "min", "max", "abs", "print", "staticmethod",
+               "classmethod", "map", "filter", "format", "id", "iter", "next", "dir", "delattr"}
+_OPAQUE_DATA = ("field", "wire", "default", "arg")      # symbols that stand for arbitrary run-time values
+_IDENT = ("name", "fmt", "hook", "clsname", "modname")  # symbols that stand for distinct identities
+
+
+def is_concrete(v) -> bool:
+    if v is None or isinstance(v, (bool, int, float, str, bytes, range)):
+        return True
+    if isinstance(v, (list, tuple, set, frozenset)):
+        return all(is_concrete(x) for x in v)
+    if isinstance(v, dict):
+        return all(is_concrete(k) and is_concrete(x) for k, x in v.items())
+    return False
+
+
+def is_strlike(v) -> bool:
+    return isinstance(v, (str, SStr)) or (isinstance(v, Sym) and v.typ == "str")
+
+
+def mkstr(parts) -> object:
+    out: list = []
+    for p in parts:
+        for q in (p.parts if isinstance(p, SStr) else (p,)):
+            if isinstance(q, str):
+                if not q:
+                    continue
+                if out and isinstance(out[-1], str):
+                    out[-1] += q
+                    continue
+            out.append(q)
+    if not out:
+        return ""
+    if len(out) == 1 and (isinstance(out[0], str) or (isinstance(out[0], Sym) and out[0].typ == "str")):
+        return out[0]
+    return SStr(tuple(out))
+
+
+def to_text(v, how: str):
+    """str(v) / repr(v) as a (symbolic) string."""
+    if how == "s" and is_strlike(v):
+        return v
+    if is_concrete(v):
+        return str(v) if how == "s" else repr(v)
+    return SStr((Conv(how, _freeze(v)),))
+
+
+def _freeze(v):
+    if isinstance(v, list):
+        return ("<list>", *[_freeze(x) for x in v])
+    if isinstance(v, tuple):
+        return tuple(_freeze(x) for x in v)
+    if isinstance(v, dict):
+        return ("<dict>", *[(_freeze(k), _freeze(x)) for k, x in v.items()])
+    return v
+
+
+class World:
+    """Mutable state shared by the evaluations of one scenario: module-level objects, placeholders, event log."""
+
+    def __init__(self, repo) -> None:
+        self.repo = repo
+        self.consts: dict[int, object] = {}
+        self.funcs: dict[int, Func] = {}
+        self.ph: list = []
+        self.ph_index: dict = {}
+        self.events: list = []
+        self.steps = 0
+        self.sysmodules: dict = {}
+        self.stubs: dict[int, object] = {}
+        self.big: set[int] = set()
+        self.conv_nodes: dict = {}
+        self.parse_cache: dict[str, object] = {}
+        self.touched: set[str] = set()
+
+    def place(self, part) -> str:
+        try:
+            i = self.ph_index.get(part)
+        except TypeError:
+            i = None
+        if i is None:
+            i = len(self.ph)
+            self.ph.append(part)
+            try:
+                self.ph_index[part] = i
+            except TypeError:
+                pass
+        return f"Zq{i}qZ"
+
+    def render(self, s) -> str:
+        if isinstance(s, str):
+            return s
+        parts = s.parts if isinstance(s, SStr) else (s,)
+        return "".join(p if isinstance(p, str) else self.place(p) for p in parts)
+
+    def unplace(self, s: str):
+        if "Zq" not in s:
+            return s
+        parts: list = []
+        pos = 0
+        for m in _PH.finditer(s):
+            parts.append(s[pos:m.start()])
+            parts.append(self.ph[int(m.group(1))])
+            pos = m.end()
+        parts.append(s[pos:])
+        return mkstr(parts)
+
+
+class Frame:
+    def __init__(self, func: Func, locals_: ChainMap) -> None:
+        self.func = func
+        self.locals = locals_
+        self.exc: PyExc | None = None
+        self.yields: list | None = None
+
+
+# ===================================================================================================== abstract interpreter
+class Interp:
+    """Evaluates function bodies of /repo (and generated source) over symbolic values.  Nothing is imported or run."""
+
+    MAX_STEPS = 3_000_000
+
+    def __init__(self, world: World) -> None:
+        self.w = world
+        self.repo = world.repo
+        self.depth = 0
+
+    # ------------------------------------------------------------------------------------------ names
+    def ident(self, s: str):
+        return self.w.unplace(s) if self.w.ph else s
+
+    def func_of(self, fi: FuncInfo) -> Func:
+        f = self.w.funcs.get(id(fi.node))
+        if f is None:
+            f = self.w.funcs[id(fi.node)] = Func(fi.node, fi.module, fi)
+        return f
+
+    def module_frame(self, module: Module) -> Frame:
+        return Frame(Func(module.tree, module), ChainMap({}))
+
+    def global_get(self, module: Module, name):
+        if not isinstance(name, str):
+            raise PyExc("NameError", repr(name))
+        r = self.repo.resolve_name(module, name)
+        if isinstance(r, ClassInfo):
+            return RepoCls(r)
+        if isinstance(r, FuncInfo):
+            return self.func_of(r)
+        if isinstance(r, tuple) and r[0] == "const":
+            key = id(r[2])
+            if key not in self.w.consts:
+                self.w.consts[key] = self.ev(r[2], self.module_frame(r[1]))
+            return self.w.consts[key]
+        if isinstance(r, tuple) and r[0] == "module" and r[1] is not None:
+            return ModRef(r[1])
+        if name in module.imports:
+            mod, attr = module.imports[name]
+            if mod.split(".")[0] == "ipv8" or mod in self.repo.modules:
+                raise Und(f"import {name} from {mod} cannot be resolved")
+            return Ext(mod + ("." + attr if attr else ""))
+        if name in _TYPE_NAMES or name in _FUNC_NAMES or name in _EXC_NAMES:
+            return Builtin(name)
+        raise PyExc("NameError", name)
+
+    def lookup(self, name, fr: Frame):
+        if name in fr.locals:
+            return fr.locals[name]
+        return self.global_get(fr.func.module, name)
+
+    # ------------------------------------------------------------------------------------------ truth / equality
+    def truth(self, v):
+        """True / False / None (unknown)."""
+        if v is None or isinstance(v, (bool, int, float, str, bytes, list, tuple, dict, set, frozenset, range)):
+            return bool(v)
+        if isinstance(v, Sym):
+            if v.kind in ("name", "fmt", "hook", "clsname", "modname"):
+                return True          # identifiers / registered format names are not empty, hooks are functions
+            return None
+        if isinstance(v, SStr):
+            if any(isinstance(p, str) or (isinstance(p, Sym) and p.kind in _IDENT) or (isinstance(p, Conv) and p.how == "r") for p in v.parts):
+                return True
+            return None
+        if isinstance(v, App):
+            return None
+        return True
+
+    def veq(self, a, b):
+        """a == b : True / False / None (unknown)."""
+        if a is b:
+            return True
+        if is_concrete(a) and is_concrete(b):
+            return a == b
+        if isinstance(a, (list, tuple)) and isinstance(b, (list, tuple)):
+            if type(a) is not type(b) or len(a) != len(b):
+                return False
+            res = True
+            for x, y in zip(a, b):
+                t = self.veq(x, y)
+                if t is False:
+                    return False
+                if t is None:
+                    res = None
+            return res
+        if isinstance(a, dict) and isinstance(b, dict):
+            return True if a == b else None
+        for x, y in ((a, b), (b, a)):
+            if isinstance(x, Sym):
+                if isinstance(y, Sym):
+                    if x == y:
+                        return True
+                    return False if (x.kind in _IDENT and y.kind in _IDENT) else None
+                if x.kind in _IDENT:
+                    if isinstance(y, str):
+                        if x.kind == "fmt" and y == "bits":
+                            return False
+                        raise Und(f"the code compares a {x.kind} symbol with the literal {y!r}: special-cased definitions are outside the enumerated family")
+                    if isinstance(y, SStr):
+                        return False
+                    return False
+                if x.kind in _OPAQUE_DATA:
+                    return None
+        if isinstance(a, SStr) and isinstance(b, SStr):
+            return a == b
+        for x, y in ((a, b), (b, a)):
+            if isinstance(x, SStr):
+                if isinstance(y, str):
+                    head = x.parts[0]
+                    if isinstance(head, str) and not y.startswith(head[:len(y)]):
+                        return False
+                    return None
+                return False
+        if isinstance(a, App) or isinstance(b, App):
+            return True if a == b else None
+        try:
+            return bool(a == b)
+        except Exception:  # noqa: BLE001
+            return False
+
+    def same(self, a, b):
+        """a is b : True / False / None."""
+        if a is b:
+            return True
+        if a is None or b is None:
+            o = b if a is None else a
+            if isinstance(o, Sym) and o.kind in ("default", "arg", "field"):
+                return None
+            if isinstance(o, App):
+                return None
+            return False
+        if isinstance(a, (bool,)) or isinstance(b, (bool,)):
+            if isinstance(a, bool) and isinstance(b, bool):
+                return a == b
+            if isinstance(a, (Sym, App)) or isinstance(b, (Sym, App)):
+                o = b if isinstance(a, bool) else a
+                return None if (isinstance(o, App) or o.kind in _OPAQUE_DATA) else False
+            return False
+        if isinstance(a, (Ext, Builtin, RepoCls, Sym, ObjInit)) or isinstance(b, (Ext, Builtin, RepoCls, Sym, ObjInit)):
+            if type(a) is not type(b):
+                return False         # opaque data values are ordinary run-time values, never a library sentinel / class / function
+            if isinstance(a, Sym) and a != b and (a.kind in _OPAQUE_DATA or b.kind in _OPAQUE_DATA):
+                return None
+            return a == b
+        if isinstance(a, (int, str)) and isinstance(b, (int, str)):
+            return type(a) is type(b) and a == b
+        if isinstance(a, App) or isinstance(b, App):
+            return None
+        return False
+
+    def compare(self, op, a, b):
+        if isinstance(op, ast.Eq):
+            return self.veq(a, b)
+        if isinstance(op, ast.NotEq):
+            t = self.veq(a, b)
+            return None if t is None else not t
+        if isinstance(op, ast.Is):
+            return self.same(a, b)
+        if isinstance(op, ast.IsNot):
+            t = self.same(a, b)
+            return None if t is None else not t
+        if isinstance(op, (ast.In, ast.NotIn)):
+            t = self.contains(b, a)
+            return t if isinstance(op, ast.In) or t is None else not t
+        if isinstance(a, Sym) and isinstance(b, Sym) and a.kind == "name" and b.kind == "name":
+            a, b = -a.key, -b.key      # convention: the abstract names are in descending lexicographic order
+        if is_concrete(a) and is_concrete(b):
+            try:
+                if isinstance(op, ast.Lt):
+                    return a < b
+                if isinstance(op, ast.LtE):
+                    return a <= b
+                if isinstance(op, ast.Gt):
+                    return a > b
+                if isinstance(op, ast.GtE):
+                    return a >= b
+            except TypeError as e:
+                raise PyExc("TypeError", str(e)) from e
+        return None
+
+    def contains(self, container, item):
+        if isinstance(container, dict):
+            try:
+                return item in container      # hash lookup: structurally different symbolic keys are different keys
+            except TypeError as e:
+                raise PyExc("TypeError", str(e)) from e
+        if isinstance(container, str):
+            if isinstance(item, str):
+                return item in container
+            return None
+        if isinstance(container, (list, tuple, set, frozenset, range)):
+            res = False
+            for x in container:
+                t = self.veq(x, item)
+                if t is True:
+                    return True
+                if t is None:
+                    res = None
+            return res
+        if isinstance(container, (SStr, Sym, App)):
+            return None
+        raise PyExc("TypeError", f"argument of type {type(container).__name__} is not iterable")
+
+    def iterate(self, v):
+        if isinstance(v, list):
+            i = 0
+            while i < len(v):
+                yield v[i]
+                i += 1
+            return
+        if isinstance(v, IterObj):
+            while v.pos < len(v.seq):
+                x = v.seq[v.pos]
+                v.pos += 1
+                yield x
+            return
+        if isinstance(v, (tuple, range)):
+            yield from v
+            return
+        if isinstance(v, dict):
+            yield from list(v.keys())
+            return
+        if isinstance(v, str):
+            yield from v
+            return
+        if isinstance(v, (set, frozenset)):
+            if len(v) <= 1 or is_concrete(v):
+                yield from sorted(v, key=repr)
+                return
+            raise Und("iteration order of a set of symbols")
+        if isinstance(v, (Sym, SStr, App)):
+            raise Und(f"iteration over the opaque value {v!r}")
+        raise PyExc("TypeError", f"{type(v).__name__} object is not iterable")
+
+    # ------------------------------------------------------------------------------------------ classes and attributes
+    def linearize(self, cls) -> list:
+        if isinstance(cls, RepoCls):
+            return [RepoCls(c) for c in cls.ci.mro()]
+        out = [cls]
+        for b in cls.bases:
+            for c in self.linearize(b):
+                if c not in out:
+                    out.append(c)
+        return out
+
+    def is_subclass(self, c, t) -> bool:
+        if isinstance(c, (ClsObj, RepoCls)):
+            if isinstance(t, (ClsObj, RepoCls)):
+                return t in self.linearize(c)
+            if isinstance(t, Builtin):
+                return t.name == "object"
+            if isinstance(t, Ext):
+                return False
+        if isinstance(c, Builtin) and c.name in _TYPE_NAMES:
+            if isinstance(t, Builtin):
+                return c.name == t.name or t.name == "object" or (c.name, t.name) == ("bool", "int")
+            return False
+        if isinstance(c, Builtin) and c.name in _EXC_NAMES:
+            return isinstance(t, Builtin) and (t.name == c.name or t.name in ("Exception", "BaseException", "object"))
+        if isinstance(c, (Sym, App)):
+            raise Und(f"issubclass of the opaque value {c!r}")
+        raise PyExc("TypeError", "issubclass() arg 1 must be a class")
+
+    def type_name(self, v):
+        """Name of the builtin type of a value, a class object for instances, None if unknown."""
+        if v is None:
+            return "NoneType"
+        for t, n in ((bool, "bool"), (int, "int"), (float, "float"), (str, "str"), (bytes, "bytes"), (list, "list"), (tuple, "tuple"),
+                     (dict, "dict"), (set, "set"), (frozenset, "frozenset"), (range, "range")):
+            if isinstance(v, t):
+                return n
+        if isinstance(v, SStr) or (isinstance(v, Sym) and v.typ == "str"):
+            return "str"
+        if isinstance(v, Obj):
+            return v.cls
+        if isinstance(v, (ClsObj, RepoCls)) or (isinstance(v, Builtin) and (v.name in _TYPE_NAMES or v.name in _EXC_NAMES)):
+            return "type"
+        if isinstance(v, (Func, Bound, PyMethod, ObjInit)) or (isinstance(v, Builtin)) or (isinstance(v, Sym) and v.typ == "callable"):
+            return "function"
+        if isinstance(v, Rec):
+            return "rec:" + v.kind
+        if isinstance(v, (Ext, ModRef)):
+            return "ext"
+        if isinstance(v, Constructed):
+            return v.cls
+        if isinstance(v, ExcVal):
+            return "exc:" + v.kind
+        return None
+
+    def is_instance(self, v, t) -> bool:
+        if isinstance(t, tuple):
+            return any(self.is_instance(v, x) for x in t)
+        tn = self.type_name(v)
+        if tn is None:
+            raise Und(f"type of the opaque value {v!r} is not known")
+        if isinstance(t, Builtin):
+            if t.name == "object":
+                return True
+            if isinstance(tn, str):
+                if tn == t.name or (tn, t.name) == ("bool", "int"):
+                    return True
+                if tn.startswith("exc:"):
+                    return self.exc_matches(tn[4:], t.name)
+                return False
+            return False
+        if isinstance(t, Ext):
+            if isinstance(tn, str) and tn.startswith("rec:"):
+                return t.name.rsplit(".", 1)[-1].lower() == tn[4:]
+            return False
+        if isinstance(t, (ClsObj, RepoCls)):
+            return not isinstance(tn, str) and self.is_subclass(tn, t)
+        raise Und(f"isinstance against {t!r}")
+
+    @staticmethod
+    def exc_matches(kind: str, handler: str) -> bool:
+        k = kind
+        while k:
+            if k == handler:
+                return True
+            k = _EXC_PARENTS.get(k)
+        return handler in ("Exception", "BaseException")
+
+    def akey(self, name):
+        if isinstance(name, str):
+            return self.ident(name)
+        if is_strlike(name):
+            return name
+        raise PyExc("TypeError", "attribute name must be string")
+
+    def class_member(self, cls, key):
+        """Raw class attribute through the MRO, or MISSING."""
+        for c in self.linearize(cls):
+            if isinstance(c, ClsObj):
+                if key in c.attrs:
+                    return c.attrs[key]
+            elif isinstance(key, str):
+                ci = c.ci
+                if key in ci.methods:
+                    return self.func_of(ci.methods[key])
+                if key in ci.attrs:
+                    k = id(ci.attrs[key])
+                    if k not in self.w.consts:
+                        self.w.consts[k] = self.ev(ci.attrs[key], self.module_frame(ci.module))
+                    return self.w.consts[k]
+        return MISSING
+
+    def _descr(self, raw, inst, cls):
+        if isinstance(raw, Func):
+            decs = raw.fi.decorator_names() if raw.fi else [chain(d) for d in getattr(raw.node, "decorator_list", [])]
+            if "staticmethod" in decs:
+                return raw
+            if "classmethod" in decs:
+                return Bound(raw, cls)
+            return Bound(raw, inst) if inst is not None else raw
+        if isinstance(raw, HookDef):
+            return Sym("hook", (raw.prefix, raw.index, "inst" if inst is not None else "cls"), "callable")
+        if isinstance(raw, Rec) and raw.kind == "staticmethod":
+            return raw.fields["func"]
+        if isinstance(raw, Rec) and raw.kind == "classmethod":
+            return Bound(raw.fields["func"], cls)
+        if isinstance(raw, Rec) and raw.kind == "function" and inst is not None:
+            return Bound(raw, inst)
+        return raw
+
+    def getattr_(self, o, name, default=MISSING):
+        try:
+            return self._getattr(o, self.akey(name))
+        except PyExc as e:
+            if e.kind == "AttributeError" and default is not MISSING:
+                return default
+            raise
+
+    def _getattr(self, o, key):  # noqa: C901, PLR0911, PLR0912
+        if isinstance(o, Obj):
+            if key == "__class__" and o.cls is not None:
+                return o.cls
+            if key == "__dict__":
+                return o.attrs
+            if key in o.attrs:
+                return o.attrs[key]
+            if o.cls is not None:
+                raw = self.class_member(o.cls, key)
+                if raw is not MISSING:
+                    return self._descr(raw, o, o.cls)
+                if key == "__init__":
+                    return ObjInit(repr(o.cls))
+            raise PyExc("AttributeError", f"{o!r} has no attribute {key!r}")
+        if isinstance(o, (ClsObj, RepoCls)):
+            raw = self.class_member(o, key)
+            if raw is not MISSING:
+                return self._descr(raw, None, o)
+            if key == "__name__":
+                return o.attrs.get("__name__", o.name) if isinstance(o, ClsObj) else o.ci.name
+            if key == "__qualname__":
+                return o.name if isinstance(o, ClsObj) else o.ci.name
+            if key == "__module__" and isinstance(o, RepoCls):
+                return o.ci.module.name
+            if key in ("mro", "__subclasses__"):
+                return PyMethod(o, key)
+            if key == "__mro__":
+                return (*self.linearize(o), Builtin("object"))
+            if key == "__dict__":
+                return o.attrs if isinstance(o, ClsObj) else {**{k: self.func_of(f) for k, f in o.ci.methods.items()}}
+            if key == "__class__":
+                return Builtin("type")
+            if key == "__bases__":
+                return tuple(o.bases) if isinstance(o, ClsObj) else tuple(RepoCls(b) for b in o.ci.bases)
+            if key in ("__init__", "__new__"):
+                return ObjInit(repr(o))
+            raise PyExc("AttributeError", f"type object {o!r} has no attribute {key!r}")
+        if isinstance(o, Rec):
+            if o.kind == "super":
+                return self._super_attr(o, key)
+            if key in o.fields:
+                return o.fields[key]
+            if o.kind == "function" and key == "__get__":
+                raise Und("descriptor protocol")
+            raise PyExc("AttributeError", f"{o!r} has no attribute {key!r}")
+        if isinstance(o, Ext):
+            if not isinstance(key, str):
+                raise Und(f"attribute {key!r} of {o.name}")
+            return Ext(o.name + "." + key)
+        if isinstance(o, ModRef):
+            return self.global_get(o.module, key)
+        if isinstance(o, Func):
+            return self._func_attr(o, key, skip=0)
+        if isinstance(o, Bound):
+            if key == "__self__":
+                return o.self
+            if key == "__func__":
+                return o.func
+            return self._getattr(o.func, key)
+        if isinstance(o, Builtin):
+            if key == "__name__":
+                return o.name
+            if key == "mro" and o.name in _TYPE_NAMES:
+                return PyMethod(o, key)
+            if key == "__mro__" and o.name in _TYPE_NAMES:
+                return (o, Builtin("object"))
+            raise PyExc("AttributeError", f"{o.name} has no attribute {key!r}")
+        if isinstance(o, ExcVal):
+            if key == "args":
+                return o.args
+            raise PyExc("AttributeError", key)
+        if isinstance(o, Constructed):
+            raise Und(f"attribute {key!r} of a constructed payload")
+        tn = self.type_name(o)
+        if isinstance(tn, str) and tn in ("str", "list", "tuple", "dict", "set", "frozenset", "bytes", "int"):
+            if key == "__class__":
+                return Builtin(tn)
+            if isinstance(key, str) and (hasattr({"str": "", "list": [], "tuple": (), "dict": {}, "set": set(), "frozenset": frozenset(), "bytes": b"", "int": 0}[tn], key)):
+                return PyMethod(o, key)
+            raise PyExc("AttributeError", f"{tn} object has no attribute {key!r}")
+        if o is None:
+            raise PyExc("AttributeError", f"NoneType object has no attribute {key!r}")
+        raise Und(f"attribute {key!r} of the opaque value {o!r}")
+
+    def _super_attr(self, sup: Rec, key):
+        if key == "__class__":
+            return Builtin("super")
+        inst, owner = sup.fields["self"], sup.fields["owner"]
+        start = inst if isinstance(inst, (ClsObj, RepoCls)) else inst.cls if isinstance(inst, Obj) else None
+        if start is None:
+            raise Und("super() of an opaque receiver")
+        lin = self.linearize(start)
+        rest = lin[lin.index(owner) + 1:] if owner in lin else []
+        for c in rest:
+            if isinstance(c, ClsObj) and key in c.attrs:
+                return self._descr(c.attrs[key], inst if isinstance(inst, Obj) else None, start)
+            if isinstance(c, RepoCls) and isinstance(key, str) and key in c.ci.methods:
+                return self._descr(self.func_of(c.ci.methods[key]), inst if isinstance(inst, Obj) else None, start)
+        if key in ("__init__", "__new__", "__init_subclass__"):
+            return ObjInit("super")
+        raise PyExc("AttributeError", f"super object has no attribute {key!r}")
+
+    def func_params(self, f: Func, skip: int):
+        """[(name, default | EMPTY, kind)] from the syntax tree."""
+        a = f.node.args
+        fr = Frame(f, ChainMap({}, *(f.closure.maps if f.closure is not None else [])))
+        out = []
+        pos = a.posonlyargs + a.args
+        off = len(pos) - len(a.defaults)
+        for i, p in enumerate(pos):
+            out.append((self.ident(p.arg), self.ev(a.defaults[i - off], fr) if i >= off else EMPTY, "pos"))
+        if a.vararg:
+            out.append((self.ident(a.vararg.arg), EMPTY, "var"))
+        for p, d in zip(a.kwonlyargs, a.kw_defaults):
+            out.append((self.ident(p.arg), self.ev(d, fr) if d is not None else EMPTY, "kwonly"))
+        if a.kwarg:
+            out.append((self.ident(a.kwarg.arg), EMPTY, "varkw"))
+        return out[skip:]
+
+    def _func_attr(self, f: Func, key, skip: int):
+        if key == "__name__":
+            return f.name
+        if key in ("__code__", "__defaults__", "__kwdefaults__"):
+            return function_record(f.name, self.func_params(f, skip)).fields[key]
+        if key == "__wrapped__":
+            raise PyExc("AttributeError", key)
+        raise Und(f"function attribute {key!r}")
+
+    def setattr_(self, o, name, value) -> None:
+        key = self.akey(name)
+        if isinstance(o, (Obj, ClsObj)):
+            o.attrs[key] = value
+            self.w.events.append(("set", o, key, value))
+            return
+        if isinstance(o, Rec):
+            o.fields[key] = value
+            return
+        raise Und(f"attribute store on {o!r}")
+
+    # ------------------------------------------------------------------------------------------ calls
+    def call(self, f, args, kw=None):  # noqa: C901, PLR0911
+        kw = kw or {}
+        if isinstance(f, Bound):
+            return self.call(f.func, [f.self, *args], kw)
+        if isinstance(f, Func):
+            return self.call_func(f, list(args), kw)
+        if isinstance(f, Builtin):
+            return self.call_builtin(f.name, list(args), kw)
+        if isinstance(f, Ext):
+            return self.call_ext(f.name, list(args), kw)
+        if isinstance(f, PyMethod):
+            return self.call_pymethod(f.obj, f.name, list(args), kw)
+        if isinstance(f, ClsObj):
+            return Constructed(f, tuple(_freeze(a) for a in args), tuple(sorted(((k, _freeze(v)) for k, v in kw.items()), key=repr)))
+        if isinstance(f, ObjInit):
+            self.w.events.append(("base-init", f.owner, args[0] if args else None))
+            return None
+        if isinstance(f, Sym) and f.typ == "callable":
+            return App(f, tuple(_freeze(a) for a in args), tuple(sorted(((k, _freeze(v)) for k, v in kw.items()), key=repr)))
+        if isinstance(f, RepoCls):
+            if any(n.endswith(("Error", "Exception")) for n in [f.ci.name, *f.ci.all_base_names()]):
+                return ExcVal(f.ci.name, tuple(args))
+            raise Und(f"construction of the library class {f.ci.name}")
+        if isinstance(f, Rec) and f.kind == "function":
+            raise PyExc("TypeError", f"the definition's own {f.fields['name']} is still in place (not replaced by generated code)")
+        if isinstance(f, (App, Sym)):
+            raise Und(f"call of the opaque value {f!r}")
+        raise PyExc("TypeError", f"{f!r} is not callable")
+
+    def bind(self, f: Func, args: list, kw: dict) -> dict:  # noqa: C901
+        a = f.node.args
+        names = [self.ident(x.arg) for x in a.posonlyargs + a.args]
+        posonly = [self.ident(x.arg) for x in a.posonlyargs]
+        kwonly = [self.ident(x.arg) for x in a.kwonlyargs]
+        loc: dict = {}
+        kw = dict(kw)
+        for n, v in zip(names, args):
+            loc[n] = v
+        extra = args[len(names):]
+        if a.vararg:
+            loc[self.ident(a.vararg.arg)] = tuple(extra)
+        elif extra:
+            raise PyExc("TypeError", f"{f.name}() takes {len(names)} positional arguments but {len(args)} were given")
+        for k in list(kw):
+            if (k in names and k not in posonly) or k in kwonly:
+                if k in loc:
+                    raise PyExc("TypeError", f"{f.name}() got multiple values for argument {k!r}")
+                loc[k] = kw.pop(k)
+        if a.kwarg:
+            loc[self.ident(a.kwarg.arg)] = kw
+        elif kw:
+            raise PyExc("TypeError", f"{f.name}() got an unexpected keyword argument {next(iter(kw))!r}")
+        dfr = None
+        off = len(names) - len(a.defaults)
+        for i, n in enumerate(names):
+            if n not in loc:
+                if i < off:
+                    raise PyExc("TypeError", f"{f.name}() missing required argument {n!r}")
+                dfr = dfr or Frame(f, ChainMap({}, *(f.closure.maps if f.closure is not None else [])))
+                loc[n] = self.ev(a.defaults[i - off], dfr)
+        for n, d in zip(kwonly, a.kw_defaults):
+            if n not in loc:
+                if d is None:
+                    raise PyExc("TypeError", f"{f.name}() missing required keyword-only argument {n!r}")
+                dfr = dfr or Frame(f, ChainMap({}, *(f.closure.maps if f.closure is not None else [])))
+                loc[n] = self.ev(d, dfr)
+        return loc
+
+    def call_func(self, f: Func, args: list, kw: dict):
+        stub = self.w.stubs.get(id(f.node))
+        if stub is not None:
+            return stub(self, args, kw)
+        if isinstance(f.node, ast.AsyncFunctionDef):
+            raise Und(f"coroutine {f.name}")
+        if f.fi is not None:
+            self.w.touched.add(f.fi.where)
+            decs = [d for d in f.fi.decorator_names() if d not in ("staticmethod", "classmethod", "abc.abstractmethod", "abstractmethod")]
+            if decs:
+                raise Und(f"decorated function {f.name} ({', '.join(map(str, decs))})")
+        loc = self.bind(f, args, kw)
+        fr = Frame(f, ChainMap(loc, *(f.closure.maps if f.closure is not None else [])))
+        self.depth += 1
+        if self.depth > 40:
+            raise Und("recursion depth")
+        is_gen = not isinstance(f.node, ast.Lambda) and any(isinstance(n, (ast.Yield, ast.YieldFrom)) for n in walk_no_nested(f.node) if n is not f.node)
+        if is_gen:
+            fr.yields = []       # evaluated eagerly: sound as long as the generator does not read state its consumer writes between two items
+        try:
+            if isinstance(f.node, ast.Lambda):
+                return self.ev(f.node.body, fr)
+            self.block(f.node.body, fr)
+        except _Return as r:
+            return IterObj(fr.yields) if is_gen else r.value
+        finally:
+            self.depth -= 1
+        return IterObj(fr.yields) if is_gen else None
+
+    # ------------------------------------------------------------------------------------------ builtins
+    def call_builtin(self, name: str, a: list, kw: dict):  # noqa: C901, PLR0911, PLR0912, PLR0915
+        if name in _EXC_NAMES:
+            return ExcVal(name, tuple(a))
+        if name == "len":
+            v = a[0]
+            if isinstance(v, (list, tuple, dict, str, set, frozenset, range, bytes)):
+                return len(v)
+            raise Und(f"len of {v!r}")
+        if name == "range":
+            if all(isinstance(x, int) and not isinstance(x, bool) for x in a):
+                return range(*a)
+            raise Und("range over a symbolic bound")
+        if name == "enumerate":
+            start = kw.get("start", a[1] if len(a) > 1 else 0)
+            return [(start + i, x) for i, x in enumerate(self.iterate(a[0]))]
+        if name == "zip":
+            gens = [self.iterate(x) for x in a]
+            rows: list = []
+            while gens:
+                row = []
+                for g in gens:
+                    try:
+                        row.append(next(g))
+                    except StopIteration:
+                        if kw.get("strict") and (row or any(True for _ in g)):
+                            raise PyExc("ValueError", "zip() arguments have different lengths") from None
+                        return rows
+                rows.append(tuple(row))
+            return rows
+        if name == "iter":
+            if len(a) != 1:
+                raise Und("iter() with a sentinel")
+            return a[0] if isinstance(a[0], IterObj) else IterObj(a[0] if isinstance(a[0], list) else list(self.iterate(a[0])))
+        if name == "next":
+            if not isinstance(a[0], IterObj):
+                raise PyExc("TypeError", f"{a[0]!r} is not an iterator")
+            for x in self.iterate(a[0]):
+                return x
+            if len(a) > 1:
+                return a[1]
+            raise PyExc("StopIteration")
+        if name == "reversed":
+            return list(reversed(list(self.iterate(a[0]))))
+        if name == "sorted":
+            if kw.get("key") is not None:
+                raise Und("sorted with a key function")
+            return self.sort(list(self.iterate(a[0])), bool(kw.get("reverse", False)))
+        if name == "list":
+            return list(self.iterate(a[0])) if a else []
+        if name == "tuple":
+            return tuple(self.iterate(a[0])) if a else ()
+        if name in ("set", "frozenset"):
+            return (set if name == "set" else frozenset)(self.iterate(a[0])) if a else (set() if name == "set" else frozenset())
+        if name == "dict":
+            d: dict = {}
+            if a:
+                if isinstance(a[0], dict):
+                    d.update(a[0])
+                else:
+                    for pair in self.iterate(a[0]):
+                        k, v = list(self.iterate(pair))
+                        d[k] = v
+            d.update(kw)
+            return d
+        if name == "str":
+            return to_text(a[0], "s") if a else ""
+        if name == "repr":
+            return to_text(a[0], "r")
+        if name == "format":
+            if len(a) == 1 or a[1] == "":
+                return to_text(a[0], "s")
+            raise Und("format() with a format spec")
+        if name == "bool":
+            t = self.truth(a[0]) if a else False
+            if t is None:
+                return App(Sym("op", "bool"), (_freeze(a[0]),))
+            return t
+        if name in ("int", "float", "abs", "bytes"):
+            if all(is_concrete(x) for x in a):
+                try:
+                    return {"int": int, "float": float, "abs": abs, "bytes": bytes}[name](*a)
+                except (TypeError, ValueError) as e:
+                    raise PyExc(type(e).__name__, str(e)) from e
+            raise Und(f"{name}() of a symbolic value")
+        if name in ("min", "max", "sum"):
+            vals = list(self.iterate(a[0])) if len(a) == 1 else a
+            if all(is_concrete(x) for x in vals) and not kw:
+                try:
+                    return {"min": min, "max": max, "sum": sum}[name](vals)
+                except (TypeError, ValueError) as e:
+                    raise PyExc(type(e).__name__, str(e)) from e
+            raise Und(f"{name}() of symbolic values")
+        if name in ("any", "all"):
+            res = name == "all"
+            unknown = False
+            for x in self.iterate(a[0]):
+                t = self.truth(x)
+                if t is None:
+                    unknown = True
+                elif t != res:
+                    return t
+            if unknown:
+                raise Und(f"{name}() over opaque values")
+            return res
+        if name == "isinstance":
+            return self.is_instance(a[0], a[1])
+        if name == "issubclass":
+            t = a[1]
+            return any(self.is_subclass(a[0], x) for x in t) if isinstance(t, tuple) else self.is_subclass(a[0], t)
+        if name == "hasattr":
+            try:
+                self.getattr_(a[0], a[1])
+            except PyExc as e:
+                if e.kind == "AttributeError":
+                    return False
+                raise
+            return True
+        if name == "getattr":
+            return self.getattr_(a[0], a[1], a[2] if len(a) > 2 else MISSING)
+        if name == "setattr":
+            self.setattr_(a[0], a[1], a[2])
+            return None
+        if name == "delattr":
+            key = self.akey(a[1])
+            if isinstance(a[0], (Obj, ClsObj)) and key in a[0].attrs:
+                del a[0].attrs[key]
+                return None
+            raise PyExc("AttributeError", repr(key))
+        if name == "callable":
+            tn = self.type_name(a[0])
+            if tn is None:
+                raise Und("callable() of an opaque value")
+            return tn in ("function", "type") or isinstance(a[0], (ClsObj, RepoCls))
+        if name == "type":
+            if len(a) == 1:
+                tn = self.type_name(a[0])
+                if tn is None:
+                    raise Und("type() of an opaque value")
+                if isinstance(tn, str):
+                    if tn in _TYPE_NAMES:
+                        return Builtin(tn)
+                    raise Und(f"type() of a {tn}")
+                return tn
+            raise Und("type() with three arguments")
+        if name == "vars":
+            return self.getattr_(a[0], "__dict__")
+        if name == "dir":
+            raise Und("dir()")
+        if name == "print":
+            return None
+        if name in ("staticmethod", "classmethod"):
+            return Rec(name, func=a[0])
+        if name in ("map", "filter"):
+            items = list(self.iterate(a[1]))
+            if name == "map":
+                return [self.call(a[0], [x]) for x in items]
+            out = []
+            for x in items:
+                t = self.truth(self.call(a[0], [x]) if a[0] is not None else x)
+                if t is None:
+                    raise Und("filter() over opaque values")
+                if t:
+                    out.append(x)
+            return out
+        if name == "compile":
+            if not is_strlike(a[0]):
+                raise PyExc("TypeError", "compile() arg 1 must be a string")
+            return Rec("code", text=a[0], filename=a[1] if len(a) > 1 else None, mode=a[2] if len(a) > 2 else kw.get("mode"))
+        if name == "globals":
+            return ModRef(self._cur.func.module)
+        if name == "locals":
+            return dict(self._cur.locals.maps[0])
+        if name == "exec":
+            return self.do_exec(a, kw)
+        if name == "super":
+            if a:
+                raise Und("super() with arguments")
+            f = self._cur.func
+            if f.fi is None or f.fi.cls is None:
+                raise Und("super() outside a library method")
+            first = f.node.args.args[0].arg if f.node.args.args else None
+            return Rec("super", owner=RepoCls(f.fi.cls), self=self._cur.locals.get(first))
+        raise Und(f"builtin {name}()")
+
+    def sort(self, vals: list, reverse: bool = False) -> list:
+        if all(is_concrete(x) for x in vals):
+            try:
+                return sorted(vals, reverse=reverse)
+            except TypeError as e:
+                raise PyExc("TypeError", str(e)) from e
+        if all(isinstance(x, Sym) and x.kind == "name" for x in vals):
+            # convention of the abstract definitions: field names are in DESCENDING lexicographic order (n0 > n1 > ...), which
+            # is one of the definitions the property quantifies over
+            return sorted(vals, key=lambda s: s.key, reverse=not reverse)
+        raise Und("sorting of symbolic values")
+
+    def do_exec(self, a: list, kw: dict):
+        code = a[0]
+        text = code.fields["text"] if isinstance(code, Rec) and code.kind == "code" else code
+        if isinstance(code, Rec) and code.kind == "code" and code.fields.get("mode") != "exec":
+            raise PyExc("TypeError", f"code compiled in mode {code.fields.get('mode')!r} is exec()ed")
+        if not is_strlike(text):
+            raise PyExc("TypeError", "exec() arg 1 must be a string or code object")
+        g = a[1] if len(a) > 1 else kw.get("globals", ModRef(self._cur.func.module))
+        loc = a[2] if len(a) > 2 else kw.get("locals")
+        if not isinstance(g, ModRef):
+            raise Und("exec() with a globals mapping that is not globals()")
+        if loc is None:
+            raise Und("exec() into module globals")
+        if not isinstance(loc, dict):
+            raise Und("exec() with an opaque locals mapping")
+        tree = self.parse_generated(text)
+        fr = Frame(Func(tree, g.module, generated=True), ChainMap(loc))
+        self.block(tree.body, fr)
+        return None
+
+    def parse_generated(self, text):
+        src = self.w.render(text)
+        if src not in self.w.parse_cache:
+            try:
+                self.w.parse_cache[src] = ast.parse(src)
+            except SyntaxError as e:
+                self.w.parse_cache[src] = PyExc("SyntaxError", f"{e.msg} in generated source {self.show(text)!r}")
+        t = self.w.parse_cache[src]
+        if isinstance(t, PyExc):
+            raise PyExc(t.kind, t.detail)
+        return t
+
+    def show(self, text) -> str:
+        return text if isinstance(text, str) else repr(text)
+
+    # ------------------------------------------------------------------------------------------ modelled externals
+    def call_ext(self, name: str, a: list, kw: dict):  # noqa: C901, PLR0911, PLR0912
+        short = name.rsplit(".", 1)[-1]
+        if name in ("typing.cast", "typing_extensions.cast"):
+            return a[1]
+        if name in ("typing.get_args", "typing_extensions.get_args"):
+            return self.getattr_(a[0], "__args__", ())
+        if name in ("typing.get_origin", "typing_extensions.get_origin"):
+            return self.getattr_(a[0], "__origin__", None)
+        if name in ("typing.get_type_hints", "typing_extensions.get_type_hints"):
+            if isinstance(a[0], ClsObj) and "hints" in a[0].meta:
+                return dict(a[0].meta["hints"])
+            raise Und("get_type_hints of something that is not an abstract dataclass")
+        if name == "dataclasses.fields":
+            if isinstance(a[0], ClsObj) and "fields" in a[0].meta:
+                return tuple(a[0].meta["fields"])
+            if isinstance(a[0], Obj) and isinstance(a[0].cls, ClsObj) and "fields" in a[0].cls.meta:
+                return tuple(a[0].cls.meta["fields"])
+            raise PyExc("TypeError", "must be called with a dataclass type or instance")
+        if name == "dataclasses.is_dataclass":
+            c = a[0].cls if isinstance(a[0], Obj) else a[0]
+            return isinstance(c, ClsObj) and "fields" in c.meta
+        if name == "inspect.signature":
+            return Rec("signature", parameters=self.signature_params(a[0]))
+        if name == "inspect.getfullargspec":
+            ps = self.signature_params(a[0], keep_self=True)
+            return Rec("argspec", args=[k for k, p in ps.items() if p.fields["kindname"] == "pos"],
+                       varargs=next((k for k, p in ps.items() if p.fields["kindname"] == "var"), None),
+                       varkw=next((k for k, p in ps.items() if p.fields["kindname"] == "varkw"), None),
+                       kwonlyargs=[k for k, p in ps.items() if p.fields["kindname"] == "kwonly"],
+                       defaults=tuple(p.fields["default"] for p in ps.values() if p.fields["kindname"] == "pos" and p.fields["default"] is not EMPTY) or None,
+                       kwonlydefaults={k: p.fields["default"] for k, p in ps.items() if p.fields["kindname"] == "kwonly" and p.fields["default"] is not EMPTY} or None,
+                       annotations={})
+        if name in ("inspect.ismethod",):
+            return isinstance(a[0], Bound) and isinstance(a[0].func, (Func, Rec))
+        if name in ("inspect.isfunction",):
+            return isinstance(a[0], Func)
+        if name in ("inspect.isclass",):
+            return isinstance(a[0], (ClsObj, RepoCls)) or (isinstance(a[0], Builtin) and a[0].name in _TYPE_NAMES)
+        if name == "itertools.islice":
+            lo, hi, step = (0, a[1], 1) if len(a) == 2 else (a[1] or 0, a[2], (a[3] if len(a) > 3 and a[3] is not None else 1))
+            if not all(x is None or (isinstance(x, int) and not isinstance(x, bool)) for x in (lo, hi, step)):
+                raise Und("islice with symbolic bounds")
+            out, g, i = [], self.iterate(a[0]), 0
+            while hi is None or i < hi:
+                try:
+                    x = next(g)
+                except StopIteration:
+                    break
+                if i >= lo and (i - lo) % step == 0:
+                    out.append(x)
+                i += 1
+            return IterObj(out)
+        if name == "itertools.chain":
+            return IterObj([x for it in a for x in self.iterate(it)])
+        if name == "itertools.chain.from_iterable":
+            return IterObj([x for it in self.iterate(a[0]) for x in self.iterate(it)])
+        if name == "types.MethodType":
+            return Bound(a[0], a[1])
+        if name in ("typing.TypeVar", "typing_extensions.TypeVar"):
+            return Rec("typevar", __name__=a[0])
+        if short in ("getLogger",) or name.startswith("logging."):
+            return None
+        raise Und(f"call of {name}() (not modelled)")
+
+    def signature_params(self, f, keep_self: bool = False) -> dict:
+        skip = 0
+        if isinstance(f, Bound):
+            f, skip = f.func, (0 if keep_self else 1)
+        if isinstance(f, Rec) and f.kind == "function":
+            params = f.fields["params"][skip:]
+        elif isinstance(f, Func):
+            params = self.func_params(f, skip)
+        elif isinstance(f, ObjInit):
+            params = [("args", EMPTY, "var"), ("kwargs", EMPTY, "varkw")]
         else:
-            out.append(("expr", norm(v.value), v.conversion))
+            raise Und(f"signature of {f!r}")
+        kinds = {"pos": "POSITIONAL_OR_KEYWORD", "var": "VAR_POSITIONAL", "kwonly": "KEYWORD_ONLY", "varkw": "VAR_KEYWORD"}
+        return {n: Rec("parameter", name=n, default=d, kind=Ext("inspect.Parameter." + kinds[k]), kindname=k, annotation=EMPTY) for n, d, k in params}
+
+    # ------------------------------------------------------------------------------------------ methods of builtin values
+    def call_pymethod(self, o, name: str, a: list, kw: dict):  # noqa: C901, PLR0911, PLR0912, PLR0915
+        if isinstance(o, (ClsObj, RepoCls, Builtin)):
+            if name == "mro":
+                return [o, Builtin("object")] if isinstance(o, Builtin) else [*self.linearize(o), Builtin("object")]
+            raise Und(f"{o!r}.{name}()")
+        if is_strlike(o) and not isinstance(o, str) or (isinstance(o, str) and name in ("join", "format")):
+            if name == "join":
+                items = list(self.iterate(a[0]))
+                parts: list = []
+                for i, it in enumerate(items):
+                    if not is_strlike(it):
+                        if isinstance(it, (Sym, App)):
+                            raise Und(f"join over the opaque value {it!r}")
+                        raise PyExc("TypeError", f"sequence item {i}: expected str instance")
+                    if i:
+                        parts.append(o)
+                    parts.append(it)
+                return mkstr(parts)
+            if name == "format":
+                return self.str_format(o, a, kw)
+            raise Und(f"str.{name} on a symbolic string")
+        if isinstance(o, str):
+            if all(is_concrete(x) for x in a) and not kw:
+                try:
+                    return getattr(o, name)(*a)
+                except (TypeError, ValueError, IndexError) as e:
+                    raise PyExc(type(e).__name__, str(e)) from e
+            if name in ("startswith", "endswith", "__eq__"):
+                raise Und(f"str.{name} with a symbolic argument")
+            raise Und(f"str.{name} with symbolic arguments")
+        if isinstance(o, list):
+            if name == "append":
+                o.append(a[0])
+                return None
+            if name == "extend":
+                o.extend(list(self.iterate(a[0])))
+                return None
+            if name == "insert":
+                o.insert(a[0], a[1])
+                return None
+            if name == "pop":
+                try:
+                    return o.pop(*a)
+                except IndexError as e:
+                    raise PyExc("IndexError", str(e)) from e
+            if name == "copy":
+                return list(o)
+            if name == "clear":
+                o.clear()
+                return None
+            if name == "reverse":
+                o.reverse()
+                return None
+            if name == "sort":
+                if kw.get("key") is not None:
+                    raise Und("sort with a key function")
+                o[:] = self.sort(list(o), bool(kw.get("reverse", False)))
+                return None
+            if name in ("index", "count"):
+                n = 0
+                for i, x in enumerate(o):
+                    t = self.veq(x, a[0])
+                    if t is None:
+                        raise Und(f"list.{name} over opaque values")
+                    if t:
+                        if name == "index":
+                            return i
+                        n += 1
+                if name == "index":
+                    raise PyExc("ValueError", "not in list")
+                return n
+        if isinstance(o, tuple) and name in ("index", "count"):
+            return self.call_pymethod(list(o), name, a, kw)
+        if isinstance(o, dict):
+            try:
+                if name == "get":
+                    return o.get(a[0], a[1] if len(a) > 1 else None)
+                if name == "pop":
+                    if a[0] in o:
+                        return o.pop(a[0])
+                    if len(a) > 1:
+                        return a[1]
+                    raise PyExc("KeyError", repr(a[0]))
+                if name == "setdefault":
+                    return o.setdefault(a[0], a[1] if len(a) > 1 else None)
+                if name == "items":
+                    return [(k, v) for k, v in o.items()]
+                if name == "keys":
+                    return list(o.keys())
+                if name == "values":
+                    return list(o.values())
+                if name == "copy":
+                    return dict(o)
+                if name == "clear":
+                    o.clear()
+                    return None
+                if name == "update":
+                    if a:
+                        o.update(self.call_builtin("dict", [a[0]], {}))
+                    o.update(kw)
+                    return None
+            except TypeError as e:
+                raise PyExc("TypeError", str(e)) from e
+        if isinstance(o, (set, frozenset)):
+            if name == "add":
+                o.add(a[0])
+                return None
+            if name in ("union", "intersection", "difference", "issubset", "issuperset", "copy"):
+                try:
+                    return getattr(o, name)(*[set(self.iterate(x)) for x in a])
+                except TypeError as e:
+                    raise PyExc("TypeError", str(e)) from e
+        raise Und(f"method {self.type_name(o)}.{name}()")
+
+    def str_format(self, fmt, a: list, kw: dict):
+        if not isinstance(fmt, str):
+            raise Und("str.format on a symbolic template")
+        parts: list = []
+        auto = 0
+        try:
+            parsed = list(string.Formatter().parse(fmt))
+        except ValueError as e:
+            raise PyExc("ValueError", str(e)) from e
+        for lit, fld, spec, conv in parsed:
+            parts.append(lit)
+            if fld is None:
+                continue
+            if spec:
+                raise Und("str.format with a format spec")
+            if fld == "":
+                if auto >= len(a):
+                    raise PyExc("IndexError", "Replacement index out of range for positional args tuple")
+                v = a[auto]
+                auto += 1
+            elif fld.isdigit():
+                if int(fld) >= len(a):
+                    raise PyExc("IndexError", "Replacement index out of range for positional args tuple")
+                v = a[int(fld)]
+            elif fld.isidentifier():
+                if fld not in kw:
+                    raise PyExc("KeyError", fld)
+                v = kw[fld]
+            else:
+                raise Und(f"str.format field {fld!r}")
+            parts.append(to_text(v, "r" if conv == "r" else "s"))
+        return mkstr(parts)
+
+    # ------------------------------------------------------------------------------------------ statements
+    def block(self, stmts, fr: Frame) -> None:
+        for s in stmts:
+            self.stmt(s, fr)
+
+    def stmt(self, s, fr: Frame) -> None:  # noqa: C901, PLR0912, PLR0915
+        self.w.steps += 1
+        if self.w.steps > self.MAX_STEPS:
+            raise Und("evaluation budget exhausted")
+        if isinstance(s, ast.Expr):
+            if not isinstance(s.value, ast.Constant):
+                self.ev(s.value, fr)
+            return
+        if isinstance(s, ast.Assign):
+            v = self.ev(s.value, fr)
+            for t in s.targets:
+                self.assign(t, v, fr)
+            return
+        if isinstance(s, ast.AnnAssign):
+            if s.value is not None:
+                self.assign(s.target, self.ev(s.value, fr), fr)
+            return
+        if isinstance(s, ast.AugAssign):
+            load = ast.copy_location(_as_load(s.target), s.target)
+            cur = self.ev(load, fr)
+            rhs = self.ev(s.value, fr)
+            if isinstance(cur, list) and isinstance(s.op, ast.Add):
+                cur.extend(list(self.iterate(rhs)))
+                new = cur
+            else:
+                new = self.binop(s.op, cur, rhs, s)
+            self.assign(s.target, new, fr)
+            return
+        if isinstance(s, ast.If):
+            self.block(s.body if self.cond(s.test, fr) else s.orelse, fr)
+            return
+        if isinstance(s, ast.For):
+            broke = False
+            for v in self.iterate(self.ev(s.iter, fr)):
+                self.assign(s.target, v, fr)
+                try:
+                    self.block(s.body, fr)
+                except _Continue:
+                    continue
+                except _Break:
+                    broke = True
+                    break
+            if not broke:
+                self.block(s.orelse, fr)
+            return
+        if isinstance(s, ast.While):
+            n = 0
+            broke = False
+            while self.cond(s.test, fr):
+                n += 1
+                if n > 5000:
+                    raise Und("loop bound")
+                try:
+                    self.block(s.body, fr)
+                except _Continue:
+                    continue
+                except _Break:
+                    broke = True
+                    break
+            if not broke:
+                self.block(s.orelse, fr)
+            return
+        if isinstance(s, ast.Return):
+            raise _Return(self.ev(s.value, fr) if s.value is not None else None)
+        if isinstance(s, ast.Pass):
+            return
+        if isinstance(s, ast.Break):
+            raise _Break
+        if isinstance(s, ast.Continue):
+            raise _Continue
+        if isinstance(s, ast.Raise):
+            if s.exc is None:
+                if fr.exc is not None:
+                    raise PyExc(fr.exc.kind, fr.exc.detail)
+                raise PyExc("RuntimeError", "No active exception to reraise")
+            v = self.ev(s.exc, fr)
+            if isinstance(v, ExcVal):
+                raise PyExc(v.kind, ", ".join(map(repr, v.args))[:200])
+            if isinstance(v, Builtin) and v.name in _EXC_NAMES:
+                raise PyExc(v.name)
+            if isinstance(v, RepoCls):
+                raise PyExc(v.ci.name)
+            raise Und(f"raise of {v!r}")
+        if isinstance(s, ast.Try):
+            self.try_(s, fr)
+            return
+        if isinstance(s, (ast.FunctionDef,)):
+            if s.decorator_list:
+                raise Und(f"decorated nested function {s.name}")
+            fr.locals[self.ident(s.name)] = Func(s, fr.func.module, None, fr.locals if not isinstance(fr.func.node, ast.Module) else None,
+                                                 generated=fr.func.generated)
+            return
+        if isinstance(s, ast.Assert):
+            if not self.cond(s.test, fr):
+                raise PyExc("AssertionError")
+            return
+        if isinstance(s, ast.Delete):
+            for t in s.targets:
+                if isinstance(t, ast.Name):
+                    fr.locals.pop(self.ident(t.id), None)
+                elif isinstance(t, ast.Subscript):
+                    c, k = self.ev(t.value, fr), self.ev(t.slice, fr)
+                    try:
+                        del c[k]
+                    except (KeyError, IndexError, TypeError) as e:
+                        raise PyExc(type(e).__name__, str(e)) from e
+                elif isinstance(t, ast.Attribute):
+                    self.call_builtin("delattr", [self.ev(t.value, fr), t.attr], {})
+                else:
+                    raise Und("del target")
+            return
+        if isinstance(s, ast.Import):
+            for al in s.names:
+                if al.name.split(".")[0] == "ipv8":
+                    raise Und(f"function-level import of {al.name}")
+                fr.locals[al.asname or al.name.split(".")[0]] = Ext(al.name if al.asname else al.name.split(".")[0])
+            return
+        if isinstance(s, ast.ImportFrom):
+            if s.level or (s.module or "").split(".")[0] == "ipv8":
+                raise Und(f"function-level import from {'.' * s.level}{s.module or ''}")
+            for al in s.names:
+                fr.locals[al.asname or al.name] = Ext(f"{s.module}.{al.name}")
+            return
+        if isinstance(s, (ast.Global, ast.Nonlocal)):
+            raise Und("global / nonlocal rebinding")
+        raise Und(f"statement `{norm(s)[:60]}`")
+
+    def try_(self, s: ast.Try, fr: Frame) -> None:
+        try:
+            try:
+                self.block(s.body, fr)
+            except PyExc as e:
+                for h in s.handlers:
+                    if h.type is None:
+                        names = ["BaseException"]
+                    else:
+                        tv = self.ev(h.type, fr)
+                        names = [getattr(x, "name", None) or getattr(getattr(x, "ci", None), "name", "?") for x in (tv if isinstance(tv, tuple) else (tv,))]
+                    if any(self.exc_matches(e.kind, n) for n in names):
+                        if h.name:
+                            fr.locals[h.name] = ExcVal(e.kind, (e.detail,))
+                        old, fr.exc = fr.exc, e
+                        try:
+                            self.block(h.body, fr)
+                        finally:
+                            fr.exc = old
+                        break
+                else:
+                    raise
+            else:
+                self.block(s.orelse, fr)
+        finally:
+            if s.finalbody:
+                self.block(s.finalbody, fr)
+
+    def assign(self, t, v, fr: Frame) -> None:
+        if isinstance(t, ast.Name):
+            fr.locals[self.ident(t.id)] = v
+            return
+        if isinstance(t, (ast.Tuple, ast.List)):
+            vals = list(self.iterate(v))
+            star = [i for i, e in enumerate(t.elts) if isinstance(e, ast.Starred)]
+            if star:
+                i = star[0]
+                after = len(t.elts) - i - 1
+                if len(vals) < len(t.elts) - 1:
+                    raise PyExc("ValueError", "not enough values to unpack")
+                for e, x in zip(t.elts[:i], vals[:i]):
+                    self.assign(e, x, fr)
+                self.assign(t.elts[i].value, vals[i:len(vals) - after], fr)
+                for e, x in zip(t.elts[i + 1:], vals[len(vals) - after:]):
+                    self.assign(e, x, fr)
+                return
+            if len(vals) != len(t.elts):
+                raise PyExc("ValueError", f"cannot unpack {len(vals)} values into {len(t.elts)} targets")
+            for e, x in zip(t.elts, vals):
+                self.assign(e, x, fr)
+            return
+        if isinstance(t, ast.Attribute):
+            self.setattr_(self.ev(t.value, fr), t.attr, v)
+            return
+        if isinstance(t, ast.Subscript):
+            c = self.ev(t.value, fr)
+            k = self.ev(t.slice, fr) if not isinstance(t.slice, ast.Slice) else self.slice_(t.slice, fr)
+            if isinstance(c, (list, dict)):
+                try:
+                    c[k] = v
+                except (IndexError, TypeError, KeyError) as e:
+                    raise PyExc(type(e).__name__, str(e)) from e
+                return
+            raise Und(f"item store on {c!r}")
+        raise Und("assignment target")
+
+    # ------------------------------------------------------------------------------------------ expressions
+    def test(self, e, fr: Frame):
+        """Three-valued truth of a condition."""
+        if isinstance(e, ast.BoolOp):
+            is_and = isinstance(e.op, ast.And)
+            res = is_and
+            for v in e.values:
+                t = self.test(v, fr)
+                if t is None:
+                    res = None
+                elif t != is_and:
+                    return t
+            return res
+        if isinstance(e, ast.UnaryOp) and isinstance(e.op, ast.Not):
+            t = self.test(e.operand, fr)
+            return None if t is None else not t
+        if isinstance(e, ast.Compare):
+            return self.ev_compare(e, fr)
+        return self.truth(self.ev(e, fr))
+
+    def cond(self, e, fr: Frame) -> bool:
+        t = self.test(e, fr)
+        if t is None:
+            raise Und(f"the condition `{norm(e)[:80]}` depends on a run-time value")
+        return t
+
+    def ev_compare(self, e: ast.Compare, fr: Frame):
+        left = self.ev(e.left, fr)
+        res = True
+        for op, c in zip(e.ops, e.comparators):
+            right = self.ev(c, fr)
+            t = self.compare(op, left, right)
+            if t is False:
+                return False
+            if t is None:
+                res = None
+            left = right
+        return res
+
+    def slice_(self, s: ast.Slice, fr: Frame) -> slice:
+        vals = [self.ev(x, fr) if x is not None else None for x in (s.lower, s.upper, s.step)]
+        if not all(v is None or (isinstance(v, int) and not isinstance(v, bool)) for v in vals):
+            raise Und("symbolic slice bound")
+        return slice(*vals)
+
+    def binop(self, op, l, r, node):  # noqa: C901
+        if isinstance(op, ast.Add):
+            if is_strlike(l) and is_strlike(r):
+                return mkstr([l, r])
+            if isinstance(l, list) and isinstance(r, list):
+                return l + r
+            if isinstance(l, tuple) and isinstance(r, tuple):
+                return l + r
+        if isinstance(op, ast.BitOr) and isinstance(l, dict) and isinstance(r, dict):
+            return {**l, **r}
+        if isinstance(op, ast.Mult) and ((isinstance(l, (list, tuple, str)) and isinstance(r, int)) or (isinstance(r, (list, tuple, str)) and isinstance(l, int))):
+            return l * r
+        if isinstance(l, (int, float)) and isinstance(r, (int, float)):
+            try:
+                if isinstance(op, ast.Add):
+                    return l + r
+                if isinstance(op, ast.Sub):
+                    return l - r
+                if isinstance(op, ast.Mult):
+                    return l * r
+                if isinstance(op, ast.FloorDiv):
+                    return l // r
+                if isinstance(op, ast.Mod):
+                    return l % r
+                if isinstance(op, ast.Div):
+                    return l / r
+                if isinstance(op, ast.Pow):
+                    return l ** r
+                if isinstance(op, ast.BitAnd):
+                    return l & r
+                if isinstance(op, ast.BitOr):
+                    return l | r
+                if isinstance(op, ast.BitXor):
+                    return l ^ r
+                if isinstance(op, ast.LShift):
+                    return l << r
+                if isinstance(op, ast.RShift):
+                    return l >> r
+            except (ZeroDivisionError, TypeError, ValueError) as e:
+                raise PyExc(type(e).__name__, str(e)) from e
+        if isinstance(op, ast.Mod) and is_strlike(l):
+            return self.printf(l, r)
+        if isinstance(l, (Sym, App)) or isinstance(r, (Sym, App)):
+            return App(Sym("op", type(op).__name__), (_freeze(l), _freeze(r)))
+        if isinstance(op, ast.Add) and (is_strlike(l) or is_strlike(r) or isinstance(l, (list, tuple)) or isinstance(r, (list, tuple))):
+            raise PyExc("TypeError", f"unsupported operand types for +: {self.type_name(l)} and {self.type_name(r)}")
+        raise Und(f"operator in `{norm(node)[:60]}`")
+
+    def printf(self, fmt, arg):
+        if not isinstance(fmt, str):
+            raise Und("printf-style formatting of a symbolic template")
+        vals = list(arg) if isinstance(arg, tuple) else [arg]
+        parts: list = []
+        pos = 0
+        for m in re.finditer(r"%(.)", fmt):
+            parts.append(fmt[pos:m.start()])
+            pos = m.end()
+            c = m.group(1)
+            if c == "%":
+                parts.append("%")
+                continue
+            if c not in "srd":
+                raise Und(f"printf conversion %{c}")
+            if not vals:
+                raise PyExc("TypeError", "not enough arguments for format string")
+            v = vals.pop(0)
+            if c == "d" and not (isinstance(v, int)):
+                raise Und("%d of a symbolic value")
+            parts.append(to_text(v, "r" if c == "r" else "s"))
+        parts.append(fmt[pos:])
+        if vals:
+            raise PyExc("TypeError", "not all arguments converted during string formatting")
+        return mkstr(parts)
+
+    def fstring(self, e: ast.JoinedStr, fr: Frame):
+        parts = []
+        for v in e.values:
+            if isinstance(v, ast.Constant):
+                parts.append(self.ident(v.value) if fr.func.generated else v.value)
+                continue
+            val = self.ev(v.value, fr)
+            if v.format_spec is not None:
+                spec = self.ev(v.format_spec, fr)
+                if spec != "":
+                    if is_concrete(val) and isinstance(spec, str) and v.conversion == -1:
+                        try:
+                            parts.append(format(val, spec))
+                        except (TypeError, ValueError) as ex:
+                            raise PyExc(type(ex).__name__, str(ex)) from ex
+                        continue
+                    raise Und("format spec on a symbolic value")
+            t = to_text(val, "r" if v.conversion in (114, 97) else "s")
+            if isinstance(t, SStr):
+                for p in t.parts:
+                    if isinstance(p, Conv):
+                        self.w.conv_nodes.setdefault(id(fr.func.node), []).append((p, v, fr.func))
+            parts.append(t)
+        return mkstr(parts)
+
+    def comprehension(self, node, fr: Frame, emit) -> None:
+        gens = node.generators
+        inner = Frame(fr.func, fr.locals.new_child())
+        inner.exc = fr.exc
+        inner.yields = fr.yields
+
+        def rec(i: int) -> None:
+            if i == len(gens):
+                emit(inner)
+                return
+            g = gens[i]
+            if g.is_async:
+                raise Und("async comprehension")
+            for v in self.iterate(self.ev(g.iter, inner)):
+                self.assign(g.target, v, inner)
+                if all(self.cond(c, inner) for c in g.ifs):
+                    rec(i + 1)
+        rec(0)
+
+    def call_args(self, e: ast.Call, fr: Frame):
+        args: list = []
+        for a in e.args:
+            if isinstance(a, ast.Starred):
+                args.extend(self.iterate(self.ev(a.value, fr)))
+            else:
+                args.append(self.ev(a, fr))
+        kw: dict = {}
+        for k in e.keywords:
+            if k.arg is None:
+                m = self.ev(k.value, fr)
+                if not isinstance(m, dict):
+                    raise Und("** of an opaque mapping")
+                for kk, vv in m.items():
+                    if kk in kw:
+                        raise PyExc("TypeError", f"got multiple values for keyword argument {kk!r}")
+                    kw[kk] = vv
+            else:
+                kw[self.ident(k.arg)] = self.ev(k.value, fr)
+        return args, kw
+
+    def ev(self, e, fr: Frame):  # noqa: C901, PLR0911, PLR0912, PLR0915
+        self.w.steps += 1
+        if isinstance(e, ast.Constant):
+            v = e.value
+            if isinstance(v, int) and not isinstance(v, bool) and v > 8:
+                self.w.big.add(v)
+            if isinstance(v, str) and fr.func.generated:
+                return self.ident(v)
+            return v
+        if isinstance(e, ast.Name):
+            key = self.ident(e.id)
+            if isinstance(key, SStr):
+                if len(key.parts) == 1 and isinstance(key.parts[0], Conv) and key.parts[0].how == "r":
+                    return _thaw(key.parts[0].value)
+                raise PyExc("NameError", f"generated source contains the token {key!r} where a Python literal or name is needed")
+            return self.lookup(key, fr)
+        if isinstance(e, ast.Attribute):
+            return self.getattr_(self.ev(e.value, fr), e.attr)
+        if isinstance(e, ast.Call):
+            f = self.ev(e.func, fr)
+            args, kw = self.call_args(e, fr)
+            self._cur = fr
+            return self.call(f, args, kw)
+        if isinstance(e, ast.Subscript):
+            c = self.ev(e.value, fr)
+            if isinstance(e.slice, ast.Slice):
+                sl = self.slice_(e.slice, fr)
+                if isinstance(c, (list, tuple, str, range, bytes)):
+                    return c[sl]
+                raise Und(f"slice of {c!r}")
+            k = self.ev(e.slice, fr)
+            return self.getitem(c, k)
+        if isinstance(e, ast.JoinedStr):
+            return self.fstring(e, fr)
+        if isinstance(e, ast.BinOp):
+            return self.binop(e.op, self.ev(e.left, fr), self.ev(e.right, fr), e)
+        if isinstance(e, ast.BoolOp):
+            is_and = isinstance(e.op, ast.And)
+            v = None
+            for i, x in enumerate(e.values):
+                v = self.ev(x, fr)
+                if i == len(e.values) - 1:
+                    return v
+                t = self.truth(v)
+                if t is None:
+                    rest = ast.BoolOp(op=e.op, values=e.values[i + 1:]) if len(e.values) - i - 1 > 1 else e.values[i + 1]
+                    return App(Sym("op", "and" if is_and else "or"), (_freeze(v), _freeze(self.ev(rest, fr))))
+                if t != is_and:
+                    return v
+            return v
+        if isinstance(e, ast.UnaryOp):
+            if isinstance(e.op, ast.Not):
+                t = self.test(e.operand, fr)
+                if t is None:
+                    return App(Sym("op", "not"), (_freeze(self.ev(e.operand, fr)),))
+                return not t
+            v = self.ev(e.operand, fr)
+            if isinstance(v, (int, float)):
+                return -v if isinstance(e.op, ast.USub) else +v if isinstance(e.op, ast.UAdd) else ~v
+            raise Und(f"unary operator on {v!r}")
+        if isinstance(e, ast.Compare):
+            t = self.ev_compare(e, fr)
+            if t is None:
+                raise Und(f"the comparison `{norm(e)[:80]}` depends on a run-time value")
+            return t
+        if isinstance(e, ast.IfExp):
+            return self.ev(e.body if self.cond(e.test, fr) else e.orelse, fr)
+        if isinstance(e, (ast.List, ast.Tuple, ast.Set)):
+            out: list = []
+            for x in e.elts:
+                if isinstance(x, ast.Starred):
+                    out.extend(self.iterate(self.ev(x.value, fr)))
+                else:
+                    out.append(self.ev(x, fr))
+            return out if isinstance(e, ast.List) else tuple(out) if isinstance(e, ast.Tuple) else set(out)
+        if isinstance(e, ast.Dict):
+            d: dict = {}
+            for k, v in zip(e.keys, e.values):
+                if k is None:
+                    d.update(self.ev(v, fr))
+                else:
+                    try:
+                        d[self.ev(k, fr)] = self.ev(v, fr)
+                    except TypeError as ex:
+                        raise PyExc("TypeError", str(ex)) from ex
+            return d
+        if isinstance(e, (ast.ListComp, ast.GeneratorExp, ast.SetComp)):
+            res: list = []
+            self.comprehension(e, fr, lambda f2: res.append(self.ev(e.elt, f2)))
+            return set(res) if isinstance(e, ast.SetComp) else res
+        if isinstance(e, ast.DictComp):
+            dd: dict = {}
+
+            def put(f2: Frame) -> None:
+                dd[self.ev(e.key, f2)] = self.ev(e.value, f2)
+            self.comprehension(e, fr, put)
+            return dd
+        if isinstance(e, ast.Lambda):
+            return Func(e, fr.func.module, None, fr.locals, generated=fr.func.generated)
+        if isinstance(e, ast.NamedExpr):
+            v = self.ev(e.value, fr)
+            self.assign(e.target, v, fr)
+            return v
+        if isinstance(e, (ast.Yield, ast.YieldFrom)):
+            if fr.yields is None:
+                raise Und("yield outside an evaluated generator function")
+            if isinstance(e, ast.Yield):
+                fr.yields.append(self.ev(e.value, fr) if e.value is not None else None)
+            else:
+                fr.yields.extend(self.iterate(self.ev(e.value, fr)))
+            return None
+        if isinstance(e, ast.Starred):
+            raise Und("starred expression")
+        raise Und(f"expression `{norm(e)[:60]}`")
+
+    def getitem(self, c, k):
+        if isinstance(c, (list, tuple, str, range, bytes)):
+            if isinstance(k, bool) or not isinstance(k, int):
+                if isinstance(k, (Sym, App, SStr)):
+                    raise Und(f"index {k!r} into a sequence")
+                raise PyExc("TypeError", "indices must be integers")
+            try:
+                return c[k]
+            except IndexError as e:
+                raise PyExc("IndexError", f"index {k} out of range (length {len(c)})") from e
+        if isinstance(c, dict):
+            try:
+                if k in c:
+                    return c[k]
+            except TypeError as e:
+                raise PyExc("TypeError", str(e)) from e
+            raise PyExc("KeyError", repr(k))
+        if isinstance(c, Ext) and c.name == "sys.modules":
+            try:
+                return self.w.sysmodules.setdefault(k, Obj(None, {}, f"module {k!r}"))
+            except TypeError as e:
+                raise PyExc("TypeError", str(e)) from e
+        if isinstance(c, (Builtin, Ext, RepoCls, ClsObj)):
+            if isinstance(c, Builtin) and c.name in ("list", "tuple", "set", "dict", "type", "frozenset"):
+                return Rec("generic", __origin__=c, __args__=k if isinstance(k, tuple) else (k,))
+            raise Und(f"subscript of {c!r}")
+        raise Und(f"subscript of the opaque value {c!r}")
+
+
+def _as_load(t):
+    if isinstance(t, ast.Name):
+        return ast.Name(id=t.id, ctx=ast.Load())
+    if isinstance(t, ast.Attribute):
+        return ast.Attribute(value=t.value, attr=t.attr, ctx=ast.Load())
+    if isinstance(t, ast.Subscript):
+        return ast.Subscript(value=t.value, slice=t.slice, ctx=ast.Load())
+    raise Und("augmented assignment target")
+
+
+def _thaw(v):
+    if isinstance(v, tuple) and v and v[0] == "<list>":
+        return [_thaw(x) for x in v[1:]]
+    if isinstance(v, tuple) and v and v[0] == "<dict>":
+        return {_thaw(k): _thaw(x) for k, x in v[1:]}
+    if isinstance(v, tuple):
+        return tuple(_thaw(x) for x in v)
+    return v
+
+
+EMPTY = Ext("inspect.Parameter.empty")
+
+
+def function_record(name: str, params: list) -> Rec:
+    """A user-defined function seen from outside: signature, __code__, __defaults__, __kwdefaults__ (CPython's layout)."""
+    pos = [p for p in params if p[2] == "pos"]
+    kwo = [p for p in params if p[2] == "kwonly"]
+    var = [p for p in params if p[2] in ("var", "varkw")]
+    defaults = tuple(d for _, d, _ in pos if d is not EMPTY)
+    kwdefaults = {n: d for n, d, _ in kwo if d is not EMPTY}
+    code = Rec("funccode", co_varnames=tuple(n for n, _, _ in pos + kwo + var), co_argcount=len(pos), co_kwonlyargcount=len(kwo),
+               co_posonlyargcount=0, co_name=name)
+    return Rec("function", name=name, __name__=name, params=params, __code__=code, __defaults__=defaults or None,
+               __kwdefaults__=kwdefaults or None)
+
+
+# ===================================================================================================== abstract definitions
+def N(i: int) -> Sym:
+    return Sym("name", i, "str")
+
+
+@dataclass
+class Defn:
+    """One abstract payload definition.  kinds: 'b' = "bits" (8 names), 's' = a string format, 'l' = [nested payload class], 'p' = nested payload class."""
+    kinds: tuple
+    pack: frozenset = frozenset()
+    unpack: frozenset = frozenset()
+    defaults: frozenset = frozenset()
+    kwonly: frozenset = frozenset()
+    custom_init: bool = False
+    groups: list = field(default_factory=list)
+
+    def __post_init__(self) -> None:
+        i = 0
+        self.groups = []
+        for k in self.kinds:
+            n = 8 if k == "b" else 1
+            self.groups.append(list(range(i, i + n)))
+            i += n
+        self.n = i
+
+    @property
+    def names(self) -> list:
+        return [N(i) for i in range(self.n)]
+
+    def describe(self) -> str:
+        kinds = {"b": "'bits'", "s": "<str format>", "l": "[<payload class>]", "p": "<payload class>"}
+        out = f"format_list=[{', '.join(kinds[k] for k in self.kinds)}], names=[{', '.join(f'n{i}' for i in range(self.n))}]"
+        for label, s in (("fix_pack_", self.pack), ("fix_unpack_", self.unpack), ("constructor defaults", self.defaults), ("keyword-only", self.kwonly)):
+            if s:
+                out += f", {label} on {{{', '.join(f'n{i}' for i in sorted(s))}}}"
+        return out
+
+
+def _pattern(p: str, n: int) -> frozenset:
+    if p == "none" or n == 0:
+        return frozenset()
+    return frozenset({"all": range(n), "even": range(0, n, 2), "odd": range(1, n, 2), "first": [0], "last": [n - 1]}[p])
+
+
+_HOOK_PATTERNS = [("none", "all"), ("all", "none"), ("even", "odd"), ("odd", "first"), ("first", "last"), ("last", "even")]
+def _seqs(alphabet: str, upto: int) -> list[tuple]:
+    out: list[tuple] = [()]
+    level: list[tuple] = [()]
+    for _ in range(upto):
+        level = [(*s, c) for s in level for c in alphabet]
+        out += level
     return out
 
 
-def _template_text(js: ast.JoinedStr) -> str:
-    return "".join(p[1] if p[0] == "text" else "{" + p[1] + ("!r" if p[2] == 114 else "") + "}" for p in _fstring_parts(js))
+# every format list over {string format, 'bits'} up to length 3, plus longer ones with repeated 'bits'
+_SHAPES_A = [*_seqs("sb", 3), ("b", "s", "b", "s"), ("s", "b", "b", "s", "s"), ("s", "s", "s", "s", "s")]
+# every format list over {string format, [payload], payload} up to length 2 that nests a payload, plus mixes with 'bits'
+_SHAPES_B = [s for s in _seqs("slp", 2) if "l" in s or "p" in s] + [("b", "l", "s"), ("s", "p", "b", "l"), ("p", "b", "b", "l", "s")]
 
 
-def _join_over(e: ast.AST):
-    """`SEP.join(<comprehension>)` -> (sep, element expr, iter expr text, target) or None"""
-    e = strip_cast(e)
-    if isinstance(e, ast.Call) and call_name(e) == "join" and isinstance(e.func.value, ast.Constant) and len(e.args) == 1:
-        a = e.args[0]
-        if isinstance(a, (ast.GeneratorExp, ast.ListComp)) and len(a.generators) == 1 and not a.generators[0].ifs:
-            g = a.generators[0]
-            return e.func.value.value, a.elt, norm(g.iter), norm(g.target)
-        if isinstance(a, ast.Name):
-            return e.func.value.value, None, a.id, None
+def definitions(shapes) -> list[Defn]:
+    out = []
+    for si, kinds in enumerate(shapes):
+        for v in range(3):
+            pp, up = _HOOK_PATTERNS[(si + v * 2) % len(_HOOK_PATTERNS)]
+            d = Defn(kinds)
+            d.pack, d.unpack = _pattern(pp, d.n), _pattern(up, d.n)
+            if v and d.n:
+                d.defaults = frozenset(range(max(0, d.n - v), d.n)) if (si + v) % 3 else frozenset(range(d.n))
+            out.append(d)
+            if not d.n:
+                break
+    return out
+
+
+class Scenario:
+    """A world with the abstract class of a definition in it."""
+
+    def __init__(self, repo, world: World | None = None) -> None:
+        self.w = world or World(repo)
+        self.it = Interp(self.w)
+        self.repo = repo
+        self.vp = RepoCls(repo.cls("VariablePayload", LP))
+        self.nested: dict[int, ClsObj] = {}
+
+    def nested_cls(self, k: int) -> ClsObj:
+        if k not in self.nested:
+            self.nested[k] = ClsObj(f"P{k}", [self.vp], {"names": [], "format_list": []})
+        return self.nested[k]
+
+    def formats(self, d: Defn) -> list:
+        out = []
+        for k, kind in enumerate(d.kinds):
+            out.append("bits" if kind == "b" else Sym("fmt", k, "str") if kind == "s" else [self.nested_cls(k)] if kind == "l" else self.nested_cls(k))
+        return out
+
+    def make_class(self, d: Defn, label: str = "D") -> ClsObj:
+        attrs: dict = {"names": d.names, "format_list": self.formats(d), "__name__": Sym("clsname", label, "str"),
+                       "__module__": Sym("modname", label, "str")}
+        for i in d.pack:
+            attrs[mkstr(["fix_pack_", N(i)])] = HookDef("fix_pack_", i)
+        for i in d.unpack:
+            attrs[mkstr(["fix_unpack_", N(i)])] = HookDef("fix_unpack_", i)
+        if d.custom_init or d.defaults or d.kwonly:
+            params = [("self", EMPTY, "pos")]
+            params += [(N(i), Sym("default", i) if i in d.defaults else EMPTY, "pos") for i in range(d.n) if i not in d.kwonly]
+            params += [(N(i), Sym("default", i) if i in d.defaults else EMPTY, "kwonly") for i in range(d.n) if i in d.kwonly]
+            attrs["__init__"] = function_record("__init__", params)
+        return ClsObj(label, [self.vp], attrs)
+
+    def instance(self, cls: ClsObj, d: Defn, filled: bool = True) -> Obj:
+        return Obj(cls, {N(i): Sym("field", i) for i in range(d.n)} if filled else {}, "payload")
+
+
+def spec_fmt(d: Defn, sc: Scenario, k: int):
+    kind = d.kinds[k]
+    return "bits" if kind == "b" else Sym("fmt", k, "str") if kind == "s" else "payload-list" if kind == "l" else "payload"
+
+
+def spec_pack(d: Defn, sc: Scenario) -> list:
+    out = []
+    for k, grp in enumerate(d.groups):
+        vals = [App(Sym("hook", ("fix_pack_", i, "inst"), "callable"), (Sym("field", i),)) if i in d.pack else Sym("field", i) for i in grp]
+        out.append((spec_fmt(d, sc, k), *vals))
+    return out
+
+
+def spec_unpack(d: Defn, cls: ClsObj) -> Constructed:
+    return Constructed(cls, tuple(App(Sym("hook", ("fix_unpack_", i, "cls"), "callable"), (Sym("wire", i),)) if i in d.unpack else Sym("wire", i)
+                                  for i in range(d.n)))
+
+
+def wire(d: Defn) -> list:
+    return [Sym("wire", i) for i in range(d.n)]
+
+
+def init_calls(d: Defn, with_defaults: bool):
+    """(label, positional, keyword, expected attribute map | None = must raise)."""
+    n = d.n
+    A = [Sym("arg", i) for i in range(n)]
+    full = {N(i): A[i] for i in range(n)}
+    out = [("all positional", A, {}, full)]
+    if n:
+        out.append(("all keyword", [], dict(full), full))
+        h = n // 2
+        out.append((f"{h} positional, {n - h} keyword", A[:h], {N(i): A[i] for i in range(h, n)}, full))
+        req = [i for i in range(n) if not (with_defaults and i in d.defaults)]
+        if with_defaults and d.defaults:
+            exp = {N(i): (A[i] if i in req else Sym("default", i)) for i in range(n)}
+            out.append(("defaulted arguments omitted", [], {N(i): A[i] for i in req}, exp))
+        if req:
+            miss = req[0]
+            out.append((f"required argument n{miss} omitted", [], {N(i): A[i] for i in range(n) if i != miss}, None))
+        out.append(("one surplus positional argument", [*A, Sym("arg", n)], {}, None))
+        out.append(("n0 given positionally and by keyword", A, {N(0): Sym("arg", n)}, None))
+        out.append(("an unknown keyword argument", A, {Sym("name", n, "str"): Sym("arg", n)}, None))
+    return out
+
+
+def run_init(sc: Scenario, cls: ClsObj, d: Defn, fn_of, with_defaults: bool):
+    """Calls the constructor given by fn_of(obj) in every way; returns a description of the first disagreement or None."""
+    for label, pos, kw, exp in init_calls(d, with_defaults):
+        obj = sc.instance(cls, d, filled=False)
+        mark = len(sc.w.events)
+        try:
+            sc.it.call(fn_of(obj), list(pos), dict(kw))
+            got = dict(obj.attrs)
+            err = None
+        except PyExc as e:
+            got, err = None, e
+        if exp is None:
+            if err is None:
+                return f"constructor call with {label} is accepted (fields {got}) although the argument list is not valid for the definition"
+            continue
+        if err is not None:
+            return f"constructor call with {label} raises {err}"
+        if got != exp:
+            return f"constructor call with {label} leaves the fields {got}, expected {exp}"
+        ev = [x for x in sc.w.events[mark:] if (x[0] == "base-init" and x[2] is obj) or (x[0] == "set" and x[1] is obj)]
+        if not ev or ev[0][0] != "base-init":
+            return f"constructor call with {label} does not run Payload.__init__(self) before the fields are set"
     return None
 
 
+def decided(fi_where: str, thunk):
+    try:
+        return thunk()
+    except Und as e:
+        raise AnalysisError(f"undecided: {fi_where}: {e}") from e
+    except RecursionError as e:
+        raise AnalysisError(f"undecided: {fi_where}: recursion") from e
+
+
+def scope_guard(sc: Scenario, where: str) -> None:
+    if sc.w.big:
+        raise AnalysisError(f"undecided: {where}: the integer constant {max(sc.w.big)} takes part in the evaluated code; the enumerated definitions "
+                            "(at most 19 names) do not cover behaviour that depends on it")
+
+
+def gen_function(sc: Scenario, code, name: str, module: Module) -> Func:
+    """The function `name` defined by the generated code object (parsed, never run)."""
+    if not (isinstance(code, Rec) and code.kind == "code"):
+        raise PyExc("TypeError", f"the builder returns {code!r}, not a code object")
+    scope: dict = {}
+    sc.it._cur = sc.it.module_frame(module)
+    sc.it.do_exec([code, ModRef(module), scope], {})
+    if name not in scope:
+        raise PyExc("NameError", f"the generated source does not define {name}: {sc.it.show(code.fields['text'])!r}")
+    return scope[name]
+
+
+# ===================================================================================================== rules
 def rule_init_template(ctx: Ctx) -> None:
-    fi = ctx.repo.func(LP, "_compile_init")
-    names, defaults = fi.params()
-    al = single_def(fi, "arg_list")
-    j = _join_over(al[0]) if al else None
-    ok = j is not None and j[0] == ", " and j[2] == names
-    elt = j[1] if j else None
-    shape = False
-    if ok and isinstance(elt, ast.IfExp):
-        v = j[3]
-        test_ok = norm(elt.test) == f"{v} in {defaults}"
-        else_ok = norm(elt.orelse) == v
-        body_ok = isinstance(elt.body, ast.JoinedStr) and [p[:2] for p in _fstring_parts(elt.body)] == [("expr", v), ("text", "="), ("expr", f"{defaults}.get({v})")]
-        shape = test_ok and else_ok and body_ok
-    ctx.check(ok and shape, "template-init", fi, fi.node, "arg_list: names in order, `name=<default>` exactly under `name in defaults`, bare name otherwise",
-              "the generated __init__ signature does not list the names in order with defaults exactly for the names that have one")
-    st = single_def(fi, "setters")
-    j2 = _join_over(st[0]) if st else None
-    ok2 = j2 is not None and j2[2] == names and isinstance(j2[1], ast.JoinedStr) and _template_text(j2[1]) == "self.{" + j2[3] + "} = {" + j2[3] + "}" and "\n" in j2[0]
-    ctx.check(ok2, "template-init", fi, fi.node, "setters: `self.<name> = <name>` for every name, one per line", "the generated __init__ does not assign every field from its parameter")
-    fc = single_def(fi, "f_code")
-    txt = _template_text(fc[0]) if fc and isinstance(fc[0], ast.JoinedStr) else ""
-    ok3 = "def __init__(self, {arg_list}):" in txt and "Payload.__init__(self)" in txt and "{setters}" in txt and txt.index("Payload.__init__") < txt.index("{setters}")
-    ctx.check(ok3, "template-init", fi, fi.node, "template: def __init__(self, <args>): Payload.__init__(self); <setters>", f"the __init__ template changed: {txt!r}")
+    repo = ctx.repo
+    fi = repo.func(LP, "_compile_init")
+    if len(fi.params()) != 2:
+        raise AnalysisError("anchor-lost: _compile_init(names, defaults)")
+    defs = definitions(_SHAPES_A)
+    bad = None
+    conv_ok = conv_bad = 0
+    bad_conv = None
+    sc = Scenario(repo)
+
+    def one(d: Defn):
+        nonlocal conv_ok, conv_bad, bad_conv
+        cls = sc.make_class(d)
+        defaults = {N(i): Sym("default", i) for i in d.defaults}
+        try:
+            code = sc.it.call(sc.it.func_of(fi), [d.names, defaults])
+            text = code.fields["text"] if isinstance(code, Rec) and code.kind == "code" else None
+            for p in (text.parts if isinstance(text, SStr) else ()):
+                if isinstance(p, Conv) and isinstance(p.value, Sym) and p.value.kind == "default":
+                    if p.how == "r":
+                        conv_ok += 1
+                    else:
+                        conv_bad += 1
+                        bad_conv = bad_conv or p
+            fn = gen_function(sc, code, "__init__", fi.module)
+        except PyExc as e:
+            return f"{e}"
+        return run_init(sc, cls, d, lambda obj: Bound(fn, obj), with_defaults=True)
+
+    for d in defs:
+        msg = decided(fi.where, lambda d=d: one(d))
+        if msg and bad is None:
+            bad = (d, msg)
+    scope_guard(sc, fi.where)
     # LINT: python values interpolated into source must use !r
-    n = 0
-    for gen in ("_compile_init", "_compile_from_unpack_list", "_compile_to_pack_list"):
-        g = ctx.repo.func(LP, gen)
-        for node in ast.walk(g.node):
-            if isinstance(node, ast.FormattedValue):
-                mentions_value = any(isinstance(x, ast.Call) and chain(x.func) in (f"{defaults}.get",) or (isinstance(x, ast.Subscript) and chain(x.value) == defaults) for x in ast.walk(node.value))
-                if mentions_value:
-                    n += 1
-                    ctx.check(node.conversion == 114, "repr-in-codegen", g, node.value, f"{gen}: default value rendered with !r",
-                              f"{gen} interpolates the Python value `{norm(node.value)}` into generated source with str(): a str default becomes a bare identifier (NameError), "
-                              "other objects become unparsable tokens; the interpreted form accepts them")
-            if isinstance(node, ast.Call) and chain(node.func) in ("str", "format") and any(chain(x) == defaults for x in ast.walk(node)):
-                ctx.check(False, "repr-in-codegen", g, node, "no str()/format() of default values", "default values are rendered with str()/format()")
-    ctx.floor("repr-in-codegen", n, 1)
-    rets = [r for r in walk_no_nested(fi.node) if isinstance(r, ast.Return)]
-    ok4 = len(rets) == 1 and isinstance(rets[0].value, ast.Call) and chain(rets[0].value.func) == "compile" and norm(rets[0].value.args[0]) == "f_code" and const_value(rets[0].value.args[2]) == "exec"
-    ctx.check(ok4, "template-init", fi, fi.node, "the template text itself is compiled", "_compile_init compiles something other than the template")
+    if bad_conv is not None:
+        node = next((v for lst in sc.w.conv_nodes.values() for p, v, f in lst if p == bad_conv), None)
+        ctx.check(False, "repr-in-codegen", fi, node.value if node is not None else fi.node, "default value rendered with !r",
+                  f"_compile_init interpolates the Python value `{norm(node.value) if node is not None else '?'}` into generated source with str(): a str default "
+                  "becomes a bare identifier (NameError), other objects become unparsable tokens; the interpreted form accepts them")
+    else:
+        ctx.check(True, "repr-in-codegen", fi, fi.node, "_compile_init: default values are rendered with !r in the generated signature")
+    ctx.floor("repr-in-codegen", sum(1 for d in defs if d.defaults), 1)
+    ctx.extra["defaults_rendered_with_repr"] = conv_ok
+    ctx.check(bad is None or bad_conv is not None and "NameError" in bad[1], "template-init", fi, fi.node,
+              f"generated __init__: names in order, `name=<default>` exactly for the names with a default, Payload.__init__(self) then one setter per name "
+              f"({len(defs)} abstract definitions x positional / keyword / omitted arguments)",
+              "the generated __init__ does not list the names in order with defaults exactly for the names that have one and assign every field from its "
+              f"parameter: for {bad[0].describe()}: {bad[1]}" if bad else "")
+
+
+def _pack_disagreement(sc: Scenario, d: Defn, fn_of):
+    cls = sc.make_class(d)
+    obj = sc.instance(cls, d)
+    try:
+        got = sc.it.call(fn_of(cls, obj), [])
+    except PyExc as e:
+        return f"to_pack_list raises {e}"
+    exp = spec_pack(d, sc)
+    if not (isinstance(got, list) and [_freeze(x) for x in got] == [_freeze(x) for x in exp]):
+        return f"to_pack_list returns {got!r}, expected {exp!r}"
+    return None
 
 
 def rule_to_pack_template(ctx: Ctx) -> None:
-    fi = ctx.repo.func(LP, "_compile_to_pack_list")
-    src, fl, names = fi.params()
-    loops = [l for l in walk_no_nested(fi.node) if isinstance(l, ast.For)]
-    outer = [l for l in loops if norm(l.iter) == fl]
-    ok = len(outer) == 1
-    inner = [l for l in ast.walk(outer[0]) if isinstance(l, ast.For) and l is not outer[0]] if ok else []
-    fv = norm(outer[0].target) if ok else "fmt"
-    ok = ok and len(inner) == 1 and norm(inner[0].iter) == f"range(8 if {fv} == 'bits' else 1)"
-    ctx.check(ok, "template-to-pack-list", fi, fi.node, "formats in order; 8 names for 'bits', 1 otherwise", "the generated to_pack_list does not consume 8 names per 'bits' format and 1 per other format")
-    if not ok:
-        return
-    body = inner[0].body
-    nm = [s for s in body if isinstance(s, ast.Assign) and norm(s.value) == f"{names}[index]"]
-    inc = [s for s in body if isinstance(s, ast.AugAssign) and norm(s.target) == "index" and const_value(s.value) == 1 and isinstance(s.op, ast.Add)]
-    init = [d for d in local_defs(fi, "index") if d[1] is not None and const_value(d[1]) == 0]
-    ctx.check(len(nm) == 1 and len(inc) == 1 and len(init) == 1 and len(local_defs(fi, "index")) == 2, "template-to-pack-list", fi, inner[0],
-              "running index into names, advanced once per consumed name", "field names are not consumed with a single running index")
-    v = norm(nm[0].targets[0]) if nm else "name"
-    ifs = [s for s in body if isinstance(s, ast.If)]
-    ok = len(ifs) == 1 and norm(ifs[0].test) == f"hasattr({src}, 'fix_pack_' + {v})"
-    if ok:
-        t = [c for c in ast.walk(ifs[0].body[0]) if isinstance(c, ast.JoinedStr)]
-        e = [c for c in ast.walk(ifs[0].orelse[0]) if isinstance(c, ast.JoinedStr)] if ifs[0].orelse else []
-        ok = bool(t) and bool(e) and _template_text(t[0]) == "self.fix_pack_{" + v + "}(self.{" + v + "})" and _template_text(e[0]) == "self.{" + v + "}" \
-            and all(isinstance(x, ast.Expr) and chain(x.value.func) == "args.append" for x in (ifs[0].body[0], ifs[0].orelse[0]))
-    ctx.check(ok, "template-to-pack-list", fi, inner[0], "fix_pack_<name> applied exactly under hasattr(src_cls, 'fix_pack_' + name)",
-              "the generated to_pack_list applies the fix_pack_ hook under a different condition / to a different field than the interpreter")
-    d = single_def(fi, "derived_fmt")
-    ok = d is not None and norm(d[0]) == f"{fv} if isinstance({fv}, str) else 'payload-list' if isinstance({fv}, list) else 'payload'"
-    ctx.check(ok, "interpreter-agrees", fi, fi.node, "generator format derivation: str -> itself, list -> payload-list, else payload", "the generator derives the pack format differently from _to_packlist_fmt")
-    ap = [c for c in calls(fi, "fmts.append")]
-    ok = len(ap) == 1 and isinstance(ap[0].args[0], ast.Call) and call_name(ap[0].args[0]) == "format" and const_value(ap[0].args[0].func.value) == '("{}", {})' \
-        and [norm(a) for a in ap[0].args[0].args] == ["derived_fmt", "', '.join(args)"] and any(a is outer[0] for a in ancestors(ap[0])) and not any(a is inner[0] for a in ancestors(ap[0]))
-    ctx.check(ok, "template-to-pack-list", fi, fi.node, "one (format, *args) tuple per format", "the generated to_pack_list does not emit one tuple per format")
-    fc = single_def(fi, "f_code")
-    txt = _template_text(fc[0]) if fc and isinstance(fc[0], ast.JoinedStr) else ""
-    ctx.check("def to_pack_list(self):" in txt and "return [{', '.join(fmts)}]" in txt, "template-to-pack-list", fi, fi.node, "template: def to_pack_list(self): return [<tuples>]",
-              f"the to_pack_list template changed: {txt!r}")
+    repo = ctx.repo
+    fi = repo.func(LP, "_compile_to_pack_list")
+    if len(fi.params()) != 3:
+        raise AnalysisError("anchor-lost: _compile_to_pack_list(src_cls, format_list, names)")
+    sc = Scenario(repo)
+
+    def compiled(cls, obj):
+        code = sc.it.call(sc.it.func_of(fi), [cls, cls.attrs["format_list"], cls.attrs["names"]])
+        return Bound(gen_function(sc, code, "to_pack_list", fi.module), obj)
+
+    def first_bad(defs):
+        for d in defs:
+            msg = decided(fi.where, lambda d=d: _pack_disagreement(sc, d, compiled))
+            if msg:
+                return d, msg
+        return None
+
+    da, db = definitions(_SHAPES_A), definitions(_SHAPES_B)
+    bad = first_bad(da)
+    ctx.check(bad is None, "template-to-pack-list", fi, fi.node,
+              f"generated to_pack_list: formats in order, 8 names per 'bits' and 1 otherwise with a running name index, fix_pack_<name> exactly where the "
+              f"source class defines it ({len(da)} abstract definitions)",
+              f"the generated to_pack_list differs from the definition: for {bad[0].describe()}: {bad[1]}" if bad else "")
+    badb = first_bad(db) if bad is None else None
+    ctx.check(badb is None, "interpreter-agrees", fi, fi.node,
+              f"generator format derivation: str -> itself, list -> payload-list, else payload ({len(db)} abstract definitions with nested payloads)",
+              f"the generator derives the pack format differently from _to_packlist_fmt: for {badb[0].describe()}: {badb[1]}" if badb else "")
+    scope_guard(sc, fi.where)
+
+
+def _unpack_disagreement(sc: Scenario, d: Defn, fn_of):
+    cls = sc.make_class(d)
+    try:
+        got = sc.it.call(fn_of(cls), wire(d))
+    except PyExc as e:
+        return f"from_unpack_list raises {e}"
+    exp = spec_unpack(d, cls)
+    if got != exp:
+        return f"from_unpack_list returns {got!r}, expected {exp!r}"
+    return None
 
 
 def rule_from_unpack_template(ctx: Ctx) -> None:
-    fi = ctx.repo.func(LP, "_compile_from_unpack_list")
-    src, names = fi.params()
-    al = single_def(fi, "arg_list")
-    ok = al is not None and norm(al[0]) == f"', '.join({names})"
-    ar = single_def(fi, "args")
-    j = _join_over(ar[0]) if ar else None
-    ok2 = j is not None and j[2] == names and isinstance(j[1], ast.IfExp)
-    if ok2:
-        v = j[3]
-        e = j[1]
-        hook = "cls.fix_unpack_{" + v + "}({" + v + "})"
-        ok2 = norm(e.test) == f"hasattr({src}, 'fix_unpack_' + {v})" and norm(e.orelse) == v and isinstance(e.body, ast.JoinedStr) \
-            and _template_text(e.body) in (hook, "None if {" + v + "} is None else " + hook)
-    ctx.check(ok and ok2, "template-from-unpack-list", fi, fi.node, "parameters and arguments: names in order; fix_unpack_<name> exactly under hasattr(src_cls, 'fix_unpack_' + name)",
-              "the generated from_unpack_list does not pass the fields in order with fix_unpack_ exactly where the class defines it")
-    fc = single_def(fi, "f_code")
-    txt = _template_text(fc[0]) if fc and isinstance(fc[0], ast.JoinedStr) else ""
-    ctx.check("def from_unpack_list(cls, {arg_list}):" in txt and "return cls({args})" in txt, "template-from-unpack-list", fi, fi.node,
-              "template: def from_unpack_list(cls, <names>): return cls(<args>)", f"the from_unpack_list template changed: {txt!r}")
+    repo = ctx.repo
+    fi = repo.func(LP, "_compile_from_unpack_list")
+    if len(fi.params()) != 2:
+        raise AnalysisError("anchor-lost: _compile_from_unpack_list(src_cls, names)")
+    sc = Scenario(repo)
+
+    def compiled(cls):
+        code = sc.it.call(sc.it.func_of(fi), [cls, cls.attrs["names"]])
+        return Bound(gen_function(sc, code, "from_unpack_list", fi.module), cls)
+
+    defs = definitions(_SHAPES_A)
+    bad = None
+    for d in defs:
+        msg = decided(fi.where, lambda d=d: _unpack_disagreement(sc, d, compiled))
+        if msg:
+            bad = (d, msg)
+            break
+    scope_guard(sc, fi.where)
+    ctx.check(bad is None, "template-from-unpack-list", fi, fi.node,
+              f"generated from_unpack_list: one parameter per name in order, cls(<args>) with fix_unpack_<name> exactly where the source class defines it "
+              f"({len(defs)} abstract definitions)",
+              "the generated from_unpack_list does not pass the fields in order with fix_unpack_ exactly where the class defines it: "
+              f"for {bad[0].describe()}: {bad[1]}" if bad else "")
 
 
 def rule_interpreter(ctx: Ctx) -> None:
     repo = ctx.repo
     vp = repo.cls("VariablePayload", LP)
-    # field-count expression at the interpreter sites
-    sites = []
-    for name in ("__init__", "to_pack_list"):
-        f = vp.methods[name]
-        for l in [l for l in walk_no_nested(f.node) if isinstance(l, ast.For)]:
-            it = norm(l.iter)
-            if it.startswith("range(8 if") and it.endswith("== 'bits' else 1)"):
-                sites.append((f, l))
-    ctx.check(len(sites) == 2, "interpreter-agrees", vp.where, "bits arity", "interpreter consumes 8 names per 'bits' format in __init__ and to_pack_list",
-              "the interpreter's field count per format differs from the generator's (8 for 'bits', 1 otherwise)")
-    tf = vp.methods["_to_packlist_fmt"]
-    p = tf.params()[0]
-    body = [s for s in tf.node.body if not (isinstance(s, ast.Expr) and isinstance(s.value, ast.Constant))]
-    txt = [norm(s) if not isinstance(s, ast.If) else f"if {norm(s.test)}: {norm(s.body[0])}" for s in body]
-    ok = txt == [f"if isinstance({p}, str): return {p}", f"if isinstance({p}, list): return 'payload-list'", "return 'payload'"]
-    ctx.check(ok, "interpreter-agrees", tf, tf.node, "_to_packlist_fmt: str -> itself, list -> payload-list, else payload", f"_to_packlist_fmt changed: {txt}")
-    fp = vp.methods["_fix_pack"]
-    d = single_def(fp, "custom_rule")
-    ok = d is not None and norm(d[0]) == f"'fix_pack_' + {fp.params()[1]}" and any(
-        isinstance(s, ast.If) and norm(s.test) == "hasattr(self, custom_rule)" and norm(s.body[0]) == "return getattr(self, custom_rule)(raw_value)" for s in walk_no_nested(fp.node)) \
-        and norm(single_def(fp, "raw_value")[0]) == f"getattr(self, {fp.params()[1]})"
-    ctx.check(ok, "interpreter-agrees", fp, fp.node, "interpreter applies fix_pack_<name> when defined, to the field's raw value", "the interpreter's fix_pack_ handling changed")
-    tp = vp.methods["to_pack_list"]
-    ap = [c for c in calls(tp, "args.append")]
-    ok = len(ap) == 1 and norm(ap[0].args[0]) == "self._fix_pack(self.names[index])"
-    oa = [c for c in calls(tp, "out.append")]
-    ok = ok and len(oa) == 1 and norm(oa[0].args[0]) == "(self._to_packlist_fmt(self.format_list[i]), *args)"
-    ctx.check(ok, "interpreter-agrees", tp, tp.node, "interpreter emits (format, *fields) per format with a running name index", "the interpreter's to_pack_list changed shape")
-    fu = vp.methods["from_unpack_list"]
-    d = single_def(fu, "custom_rule")
-    ok = d is not None and norm(d[0]) == "'fix_unpack_' + cls.names[i]"
-    rets = [r for r in walk_no_nested(fu.node) if isinstance(r, ast.Return)]
-    ok = ok and len(rets) == 1 and norm(rets[0].value) == "cls(*unpack_args)" and any(
-        isinstance(s, ast.If) and norm(s.test) == "hasattr(cls, custom_rule)" and norm(s.body[0]) == "unpack_args[i] = getattr(cls, custom_rule)(args[i])" for s in walk_no_nested(fu.node))
-    ctx.check(ok, "interpreter-agrees", fu, fu.node, "interpreter applies fix_unpack_<names[i]> to argument i and constructs cls(*args)", "the interpreter's from_unpack_list changed shape")
-    ini = vp.methods["__init__"]
-    sets = [c for c in calls(ini, "setattr") if norm(c.args[0]) == "self"]
-    ok = len(sets) == 1 and norm(sets[0].args[1]) == "self.names[index]" and norm(sets[0].args[2]) == "value"
-    d = single_def(ini, "value")
-    ok = ok and d is not None and norm(d[0]) == "args[index] if index < len(args) else kwargs.pop(self.names[index])"
-    raises = [r for r in walk_no_nested(ini.node) if isinstance(r, ast.Raise)]
-    ok = ok and len(raises) >= 2
-    ctx.check(ok, "interpreter-agrees", ini, ini.node, "interpreter assigns names[index] from positional then keyword arguments and rejects surplus",
-              "the interpreter's constructor changed how arguments map to field names")
+    sc = Scenario(repo)
+    da, db = definitions(_SHAPES_A), definitions(_SHAPES_B)
+
+    def method(name: str) -> FuncInfo:
+        f = vp.methods.get(name)
+        if f is None:
+            raise AnalysisError(f"anchor-lost: VariablePayload.{name}")
+        return f
+
+    def first_bad(where, defs, probe):
+        for d in defs:
+            msg = decided(where, lambda d=d: probe(d))
+            if msg:
+                return d, msg
+        return None
+
+    tp = method("to_pack_list")
+    interp_pack = lambda cls, obj: sc.it.getattr_(obj, "to_pack_list")  # noqa: E731
+    bad = first_bad(tp.where, da, lambda d: _pack_disagreement(sc, d, interp_pack))
+    ctx.check(bad is None, "interpreter-agrees", tp, tp.node,
+              "interpreter emits (format, *fields) per format, 8 names per 'bits' and 1 otherwise with a running name index, fix_pack_<name> applied to "
+              f"the field's raw value when defined ({len(da)} abstract definitions)",
+              f"the interpreter's to_pack_list / _fix_pack differs from the definition: for {bad[0].describe()}: {bad[1]}" if bad else "")
+    tf = method("_to_packlist_fmt")
+    badb = first_bad(tf.where, db, lambda d: _pack_disagreement(sc, d, interp_pack)) if bad is None else None
+    ctx.check(badb is None, "interpreter-agrees", tf, tf.node, "_to_packlist_fmt: str -> itself, list -> payload-list, else payload",
+              f"_to_packlist_fmt changed: for {badb[0].describe()}: {badb[1]}" if badb else "")
+    for helper in ("_fix_pack",):
+        if helper in vp.methods:
+            ctx.functions.add(vp.methods[helper].where)
+    fu = method("from_unpack_list")
+    bad = first_bad(fu.where, da, lambda d: _unpack_disagreement(sc, d, lambda cls: sc.it.getattr_(cls, "from_unpack_list")))
+    ctx.check(bad is None, "interpreter-agrees", fu, fu.node, "interpreter applies fix_unpack_<names[i]> to argument i and constructs cls(*args)",
+              f"the interpreter's from_unpack_list differs from the definition: for {bad[0].describe()}: {bad[1]}" if bad else "")
+    ini = method("__init__")
+
+    def probe_init(d: Defn):
+        cls = sc.make_class(Defn(d.kinds, d.pack, d.unpack))
+        return run_init(sc, cls, d, lambda obj: Bound(sc.it.func_of(ini), obj), with_defaults=False)
+
+    bad = first_bad(ini.where, da, probe_init)
+    ctx.check(bad is None, "interpreter-agrees", ini, ini.node,
+              "interpreter assigns names[index] from positional then keyword arguments (8 names per 'bits'), after Payload.__init__, and rejects missing / surplus "
+              f"arguments ({len(da)} abstract definitions x call patterns)",
+              f"the interpreter's constructor changed how arguments map to field names: for {bad[0].describe()}: {bad[1]}" if bad else "")
+    scope_guard(sc, vp.where)
+    ctx.assume("VariablePayload.__init__ is evaluated for definitions whose base classes have no Python-level __init__ (no old-style Payload in the MRO)")
+
+
+_VPC_SHAPES = [("s",), ("s", "s"), ("b", "s"), ("s", "b", "s"), ("l", "p", "s"), ("b", "b", "s"), (), ("s", "s", "s"), ("p", "b", "l")]
+
+
+def vp_compile_definitions() -> list[Defn]:
+    out = []
+    for si, kinds in enumerate(_VPC_SHAPES):
+        for v in range(2):
+            pp, up = _HOOK_PATTERNS[(si + v * 3) % len(_HOOK_PATTERNS)]
+            d = Defn(kinds)
+            d.pack, d.unpack = _pattern(pp, d.n), _pattern(up, d.n)
+            if v == 1 and d.n:
+                d.defaults = frozenset({d.n - 1})
+                if si % 2:
+                    d.kwonly = frozenset({d.n - 1})
+            elif si % 3 == 0:
+                d.custom_init = True
+            out.append(d)
+    return out
 
 
 def rule_vp_compile(ctx: Ctx) -> None:
-    fi = ctx.repo.func(LP, "vp_compile")
-    d = fi.params()[0]
-    ex = [c for c in calls(fi, "exec")]
-    gens = {}
-    for c in ex:
-        g = c.args[0]
-        if isinstance(g, ast.Call):
-            gens[chain(g.func)] = g
-    ok = set(gens) == {"_compile_init", "_compile_from_unpack_list", "_compile_to_pack_list"} and all(norm(c.args[2]) == "local_scope" for c in ex)
-    if ok:
-        gi = gens["_compile_init"]
-        ok = norm(gi.args[0]) == f"{d}.names" and isinstance(gi.args[1], ast.DictComp) and f"inspect.signature({d}.__init__).parameters.items()" in norm(gi.args[1]) \
-            and "v.default" in norm(gi.args[1].value) and "is not inspect.Parameter.empty" in norm(gi.args[1])
-        ok = ok and [norm(a) for a in gens["_compile_from_unpack_list"].args] == [d, f"{d}.names"]
-        ok = ok and [norm(a) for a in gens["_compile_to_pack_list"].args] == [d, f"{d}.format_list", f"{d}.names"]
-    ctx.check(ok, "vp-compile-installs", fi, fi.node, "the three builders are fed names/format_list/defaults of the same class", "vp_compile feeds a builder with data of another class or other defaults")
-    sa = {const_value(c.args[1]): norm(c.args[2]) for c in calls(fi, "setattr") if norm(c.args[0]) == d}
-    want = {"__init__": "local_scope['__init__']", "__match_args__": f"tuple({d}.names)",
-            "from_unpack_list": f"types.MethodType(local_scope['from_unpack_list'], {d})", "to_pack_list": "local_scope['to_pack_list']"}
-    ctx.check(sa == want, "vp-compile-installs", fi, fi.node, "vp_compile installs exactly __init__, __match_args__, from_unpack_list (bound to the class), to_pack_list",
-              f"vp_compile installs {sa}")
-    rets = [r for r in walk_no_nested(fi.node) if isinstance(r, ast.Return)]
-    ctx.check(len(rets) == 1 and norm(rets[0].value) == d, "vp-compile-installs", fi, fi.node, "vp_compile returns the same class", "vp_compile returns another class")
+    repo = ctx.repo
+    fi = repo.func(LP, "vp_compile")
+    sc = Scenario(repo)          # ONE world: module-level state written by vp_compile is shared by all definitions, as at run time
+    defs = vp_compile_definitions()
+
+    def one(d: Defn, label: str):  # noqa: PLR0911
+        cls = sc.make_class(d, label)
+        before = dict(cls.attrs)
+        try:
+            res = sc.it.call(sc.it.func_of(fi), [cls])
+        except PyExc as e:
+            return f"vp_compile raises {e}"
+        if res is not cls:
+            return f"vp_compile returns {res!r}, not the class it was given"
+        if _freeze(cls.attrs.get("names")) != _freeze(before["names"]) or _freeze(cls.attrs.get("format_list")) != _freeze(before["format_list"]):
+            return "vp_compile changes names / format_list of the definition"
+        msg = run_init(sc, cls, d, lambda obj: sc.it.getattr_(obj, "__init__"), with_defaults=True)
+        if msg:
+            return "compiled " + msg
+        try:
+            ma = sc.it.getattr_(cls, "__match_args__")
+        except PyExc as e:
+            return f"__match_args__: {e}"
+        if ma != tuple(d.names):
+            return f"__match_args__ is {ma!r}, expected {tuple(d.names)!r}"
+        obj = sc.instance(cls, d)
+        try:
+            got = sc.it.call(sc.it.getattr_(obj, "to_pack_list"), [])
+        except PyExc as e:
+            return f"compiled to_pack_list raises {e}"
+        exp = spec_pack(d, sc)
+        if not (isinstance(got, list) and [_freeze(x) for x in got] == [_freeze(x) for x in exp]):
+            return f"compiled to_pack_list returns {got!r}, expected {exp!r}"
+        try:
+            got = sc.it.call(sc.it.getattr_(cls, "from_unpack_list"), wire(d))
+        except PyExc as e:
+            return f"compiled from_unpack_list raises {e}"
+        if got != spec_unpack(d, cls):
+            return f"compiled from_unpack_list (called on the class) returns {got!r}, expected {spec_unpack(d, cls)!r}"
+        sub = ClsObj(label + "Sub", [cls], {})
+        try:
+            got = sc.it.call(sc.it.getattr_(sub, "from_unpack_list"), wire(d))
+        except PyExc as e:
+            return f"compiled from_unpack_list called through a subclass raises {e}"
+        if got not in (spec_unpack(d, cls), spec_unpack(d, sub)):
+            return f"compiled from_unpack_list is not bound to a class: through a subclass it returns {got!r}"
+        return None
+
+    bad = None
+    for i, d in enumerate(defs):
+        msg = decided(fi.where, lambda d=d, i=i: one(d, f"D{i}"))
+        if msg:
+            bad = (d, msg)
+            break
+    scope_guard(sc, fi.where)
+    ctx.check(bad is None, "vp-compile-installs", fi, fi.node,
+              "vp_compile feeds the three builders with names / format_list / hooks / constructor defaults of the class it is given, installs __init__, "
+              f"__match_args__, from_unpack_list (bound to the class) and to_pack_list and returns the same class ({len(defs)} abstract definitions in one "
+              "world, consecutive ones with an equal layout and different hooks, defaults on positional and keyword-only parameters)",
+              "vp_compile feeds a builder with data of another class or other defaults, or installs something else: "
+              f"for {bad[0].describe()}: {bad[1]}" if bad else "")
 
 
 def registered_formats(ctx: Ctx) -> set[str]:
@@ -242,36 +2496,181 @@ def registered_formats(ctx: Ctx) -> set[str]:
     raise AnalysisError("anchor-lost: Serializer._packers table")
 
 
-def rule_type_map(ctx: Ctx) -> None:
-    fi = ctx.repo.func(PD, "type_map")
+_SCALARS = {"bool": "?", "int": "q", "float": "d", "bytes": "varlenH", "str": "varlenHutf8"}
+
+
+def _annotations(sc: Scenario):
+    """(description, annotation value, expected type_map result | PyExc kind)."""
+    if getattr(sc, "_anns", None) is not None:
+        return sc._anns
+    sc._anns = out = _annotations_of(sc)
+    return out
+
+
+def _annotations_of(sc: Scenario):
+    P = sc.nested_cls(0)
+    out = [(k, Builtin(k), v) for k, v in _SCALARS.items()]
+    out.append(("type_from_format(<fmt>)", Rec("typevar", __name__=Sym("fmt", 0, "str")), Sym("fmt", 0, "str")))
+    for origin in ("list", "tuple", "set"):
+        for k in ("bool", "int", "float"):
+            out.append((f"{origin}[{k}]", Rec("generic", __origin__=Builtin(origin), __args__=(Builtin(k),)), "arrayH-" + _SCALARS[k]))
+        out.append((f"{origin}[<payload class>]", Rec("generic", __origin__=Builtin(origin), __args__=(P,)), [P]))
+    out.append(("<payload class>", P, P))
+    out.append(("dict", Builtin("dict"), PyExc("NotImplementedError")))
+    out.append(("dict[str, int]", Rec("generic", __origin__=Builtin("dict"), __args__=(Builtin("str"), Builtin("int"))), PyExc("NotImplementedError")))
+    return out
+
+
+def _spec_type_map(sc: Scenario, ann):
+    for _, a, exp in _annotations(sc):
+        if a is ann or (isinstance(a, Builtin) and a == ann):
+            return exp
+    raise AssertionError(ann)
+
+
+class DataclassWorld(Scenario):
+    """Abstract dataclasses: real fields, ClassVar pseudo-fields (in __dataclass_fields__ and the type hints, not in dataclasses.fields())."""
+
+    def __init__(self, repo, cp: FuncInfo) -> None:
+        super().__init__(repo)
+        self.base = RepoCls(repo.cls("DataClassPayload", PD))
+        self.compiles: list = []
+        vpc = repo.resolve_name(cp.module, "vp_compile")
+        if not isinstance(vpc, FuncInfo):
+            raise AnalysisError("anchor-lost: vp_compile as seen from payload_dataclass")
+
+        def stub(it: Interp, args: list, kw: dict):
+            c = args[0] if args else kw.get("vp_definition")
+            self.compiles.append((c, _freeze(it.getattr_(c, "names", None)), _freeze(it.getattr_(c, "format_list", None))))
+            return c
+        self.w.stubs[id(vpc.node)] = stub
+        self.anns = [a for _, a, exp in _annotations(self) if not isinstance(exp, PyExc)]
+        self.counter = 0
+
+    def dataclass(self, label: str, n_own: int, parent: ClsObj | None = None, classvar: bool = True) -> ClsObj:
+        fields = list(parent.meta["fields"]) if parent else []
+        hints = dict(parent.meta["hints"]) if parent else {}
+        dcf = dict(parent.attrs["__dataclass_fields__"]) if parent else {}
+        for _ in range(n_own):
+            i = self.counter
+            self.counter += 1
+            ann = self.anns[i % len(self.anns)]
+            f = Rec("field", name=N(i), type=ann, default=Ext("dataclasses.MISSING"), kind="field")
+            fields.append(f)
+            hints[N(i)] = ann
+            dcf[N(i)] = f
+        if classvar:
+            i = self.counter
+            self.counter += 1
+            pseudo = Rec("field", name=N(i), type=Rec("classvar"), default=Ext("dataclasses.MISSING"), kind="classvar")
+            hints[N(i)] = Rec("classvar")
+            dcf[N(i)] = pseudo
+        return ClsObj(label, [parent or self.base], {"__dataclass_fields__": dcf, "__module__": Sym("modname", label, "str"),
+                                                     "__name__": Sym("clsname", label, "str")}, {"fields": fields, "hints": hints})
+
+    def check_converted(self, cls: ClsObj, what: str):
+        names = [f.fields["name"] for f in cls.meta["fields"]]
+        fmts = [_spec_type_map(self, f.fields["type"]) for f in cls.meta["fields"]]
+        got_n, got_f = cls.attrs.get("names"), cls.attrs.get("format_list")
+        if got_n is None or _freeze(list(got_n)) != _freeze(names):
+            return f"{what}: names = {got_n if got_n is not None else self.it.getattr_(cls, 'names', None)!r}, the dataclass fields are {names!r}"
+        if got_f is None or _freeze(list(got_f)) != _freeze(fmts):
+            return f"{what}: format_list = {got_f if got_f is not None else self.it.getattr_(cls, 'format_list', None)!r}, expected {fmts!r} for the fields {names!r}"
+        last = next((c for c in reversed(self.compiles) if c[0] is cls), None)
+        if last is None:
+            return f"{what}: the class is never passed to vp_compile"
+        if last[1] != _freeze(names) or last[2] != _freeze(fmts):
+            return f"{what}: vp_compile saw names={last[1]!r} format_list={last[2]!r}, not the final definition"
+        mod = self.w.sysmodules.get(cls.attrs["__module__"])
+        if mod is None or mod.attrs.get(cls.attrs["__name__"]) is not cls:
+            return f"{what}: the compiled class does not replace the dataclass in its module"
+        return None
+
+
+def rule_type_map(ctx: Ctx) -> None:  # noqa: C901, PLR0912, PLR0915
+    repo = ctx.repo
+    fi = repo.func(PD, "type_map")
     fmts = registered_formats(ctx)
-    consts = [const_value(r.value) for r in walk_no_nested(fi.node) if isinstance(r, ast.Return) and isinstance(const_value(r.value), str)]
-    ctx.floor("type-map", len(consts), 5)
-    pairs = {}
-    for s in walk_no_nested(fi.node):
-        if isinstance(s, ast.If) and isinstance(s.test, ast.Compare) and isinstance(s.test.ops[0], ast.Is) and isinstance(s.body[0], ast.Return):
-            pairs[norm(s.test.comparators[0])] = const_value(s.body[0].value)
-    for t, f in pairs.items():
-        ctx.check(f in fmts, "type-map", fi, f"{t} -> {f}", f"type_map({t}) = {f!r} is a registered format", f"type_map({t}) returns {f!r}, which the Serializer does not register")
-    ctx.check(pairs == {"bool": "?", "int": "q", "float": "d", "bytes": "varlenH", "str": "varlenHutf8"}, "type-map", fi, fi.node,
-              "scalar annotations map to ?, q, d, varlenH, varlenHutf8", f"scalar type map changed: {pairs}")
-    arr = [n for n in ast.walk(fi.node) if isinstance(n, ast.JoinedStr)]
-    ok = len(arr) == 1 and _template_text(arr[0]) == "arrayH-{type_map(fmt)}" and all(f"arrayH-{x}" in fmts for x in ("?", "q", "d"))
-    ctx.check(ok, "type-map", fi, fi.node, "lists of scalars map to arrayH-<scalar format> (registered for ?, q, d)", "list annotations map to an unregistered array format")
-    cp = ctx.repo.func(PD, "convert_to_payload")
-    dt = fi = cp
-    p = cp.params()[0]
-    nm = [s for s in walk_no_nested(cp.node) if isinstance(s, ast.Assign) and norm(s.targets[0]) == f"{p}.names"]
-    fl = [s for s in walk_no_nested(cp.node) if isinstance(s, ast.Assign) and norm(s.targets[0]) == f"{p}.format_list"]
-    ok = len(nm) == 1 and len(fl) == 1 and norm(nm[0].value) == "[field.name for field in dt_fields]" and norm(fl[0].value) == "[type_map(type_hints[field.name]) for field in dt_fields]" \
-        and norm(single_def(cp, "dt_fields")[0]) == f"dataclasses.fields({p})"
-    ctx.check(ok, "type-map", cp, cp.node, "names and format_list are derived from the same dataclass field order", "names and formats of a dataclass payload come from different orders")
-    comp = [c for c in calls(cp) if call_name(c) == "setattr" and isinstance(c.args[2], ast.Call) and chain(c.args[2].func) == "vp_compile" and norm(c.args[2].args[0]) == p]
-    ctx.check(bool(comp), "type-map", cp, cp.node, "the dataclass is replaced by vp_compile(dataclass_type)", "dataclass payloads are not compiled from their own definition")
+    cp = repo.func(PD, "convert_to_payload")
+    dw = DataclassWorld(repo, cp)
+    table = _annotations(dw)
+    n_const = 0
+    bad = None
+    scalar_pairs = {}
+    for desc, ann, exp in table:
+        def one(ann=ann):
+            try:
+                return dw.it.call(dw.it.func_of(fi), [ann])
+            except PyExc as e:
+                return e
+        got = decided(fi.where, one)
+        if isinstance(got, str):
+            n_const += 1
+            if desc in _SCALARS or desc.split("[")[-1].rstrip("]") in ("bool", "int", "float"):
+                scalar_pairs[desc] = got
+                ctx.check(got in fmts, "type-map", fi, f"{desc} -> {got}", f"type_map({desc}) = {got!r} is a registered format",
+                          f"type_map({desc}) returns {got!r}, which the Serializer does not register")
+        same = (isinstance(got, PyExc) and got.kind == exp.kind) if isinstance(exp, PyExc) else (not isinstance(got, PyExc) and _freeze(got) == _freeze(exp))
+        if not same and bad is None:
+            bad = (desc, got, exp)
+    ctx.floor("type-map", n_const, 5)
+    ctx.check(bad is None, "type-map", fi, fi.node,
+              "scalar annotations map to ?, q, d, varlenH, varlenHutf8; TypeVars to their name; list/tuple/set of scalars to arrayH-<scalar format>, of payloads to "
+              "[payload]; payload classes to themselves; anything else is rejected",
+              f"type map changed: type_map({bad[0]}) gives {bad[1]!r}, expected {bad[2]!r}" if bad else "")
+    # ---- convert_to_payload: every class that reaches it is converted from ITS OWN dataclass fields
+    def scenario():  # noqa: PLR0911
+        it = dw.it
+        conv = dw.it.func_of(cp)
+        a = dw.dataclass("A", 3)
+        it.call(conv, [a])
+        msg = dw.check_converted(a, "fresh dataclass with a ClassVar annotation")
+        if msg:
+            return msg
+        if "msg_id" in a.attrs:
+            return "msg_id is set although none was given"
+        it.call(conv, [a])
+        msg = dw.check_converted(a, "dataclass converted a second time (every instantiation converts)")
+        if msg:
+            return msg
+        b = dw.dataclass("B", 4, classvar=False)
+        it.call(conv, [b], {"msg_id": 7})
+        msg = dw.check_converted(b, "dataclass with a message id")
+        if msg:
+            return msg
+        if b.attrs.get("msg_id") != 7:
+            return f"msg_id = {b.attrs.get('msg_id')!r} after convert_to_payload(cls, msg_id=7)"
+        c = dw.dataclass("C", 2, parent=b)
+        it.call(conv, [c, 7])
+        msg = dw.check_converted(c, "dataclass deriving from an already converted dataclass payload")
+        if msg:
+            return msg
+        return dw.check_converted(b, "parent dataclass after its subclass was converted")
+
+    def guarded():
+        try:
+            return scenario()
+        except PyExc as e:
+            return f"convert_to_payload raises {e}"
+    msg = decided(cp.where, guarded)
+    ctx.check(msg is None, "type-map", cp, cp.node,
+              "names and format_list are derived from the same dataclasses.fields() order of the class itself and the class is replaced by vp_compile(dataclass_type) "
+              "(fresh / re-converted / derived dataclasses, ClassVar pseudo-fields, with and without msg_id)",
+              f"names and formats of a dataclass payload come from different orders or not from its own definition: {msg}" if msg else "")
+    scope_guard(dw, cp.where)
     # every class that reaches convert_to_payload is converted from ITS OWN fields: no early exit / guard that an inherited attribute could satisfy
+    p = cp.params()[0]
+
+    def stores(attr: str):
+        out = [s for s in walk_no_nested(cp.node) if isinstance(s, (ast.Assign, ast.AnnAssign))
+               and any(chain(t) == f"{p}.{attr}" for t in (s.targets if isinstance(s, ast.Assign) else [s.target]))]
+        out += [c for c in calls(cp, "setattr") if len(c.args) == 3 and chain(c.args[0]) == p and const_value(c.args[1]) == attr]
+        return out
+    nm, fl = stores("names"), stores("format_list")
+    comp = [c for c in calls(cp) if chain(c.func) is not None and chain(c.func).split(".")[-1] == "vp_compile" and c.args and chain(c.args[0]) == p]
     cfgc = ctx.cfg(cp)
-    must = [n for s_ in [*nm, *fl] for n in cfgc.nodes_for(s_)] + [n for c in comp for n in cfgc.nodes_for(c)]
-    ok = bool(comp) and all(cfgc.exit not in cfgc.reach(cut_nodes=cfgc.nodes_for(x), follow_exc=False) for x in [*nm, *fl, *comp])
+    ok = bool(nm) and bool(fl) and bool(comp) and all(
+        cfgc.exit not in cfgc.reach(cut_nodes=[n for x in grp for n in cfgc.nodes_for(x)], follow_exc=False) for grp in (nm, fl, comp))
     ctx.check(ok, "type-map", cp, cp.node, "convert_to_payload always derives names/format_list and compiles (no skip path)",
               "convert_to_payload can return without deriving names/format_list and compiling the class (e.g. a 'convert once' guard satisfied by an attribute "
               "inherited from a parent dataclass payload): the subclass keeps the parent's wire format and drops its own fields")
@@ -302,8 +2701,12 @@ def run(ctx: Ctx) -> None:
     rule_vp_compile(ctx)
     rule_type_map(ctx)
     rule_library_defaults(ctx)
-    ctx.assume("byte equality of concrete instances follows from the template shapes plus C02's packer symmetry; it is not executed")
+    ctx.assume("byte equality of concrete instances follows from equal pack lists / constructor arguments plus C02's packer symmetry; it is not executed")
     ctx.assume("compiled from_unpack_list skips fix_unpack_ for None values while the interpreter does not: wire values are never None")
+    ctx.assume("field names of a definition are distinct non-empty identifiers, string formats other than 'bits' are registered format names that the "
+               "code does not single out; symbolic strings built differently are different strings")
+    ctx.assume("abstract definitions are finite: at most 5 formats / 19 names, hooks / defaults in 6 presence patterns; integer constants above 8 in the "
+               "evaluated code make the rule undecided instead of silently out of scope")
 
 
 WITNESSES = [
